@@ -4,1354 +4,6 @@ mod gen;
 use support::Out;
 fn main() {
     let mut out = Out { checks: 0, fails: 0 };
-    { let before = out.checks; gen::eq_0::run(&mut out); println!("RAN\teq_0\t{}", out.checks - before); }
-    { let before = out.checks; gen::eq_1::run(&mut out); println!("RAN\teq_1\t{}", out.checks - before); }
-    { let before = out.checks; gen::eq_2::run(&mut out); println!("RAN\teq_2\t{}", out.checks - before); }
-    { let before = out.checks; gen::eq_3::run(&mut out); println!("RAN\teq_3\t{}", out.checks - before); }
-    { let before = out.checks; gen::eq_4::run(&mut out); println!("RAN\teq_4\t{}", out.checks - before); }
-    { let before = out.checks; gen::eq_5::run(&mut out); println!("RAN\teq_5\t{}", out.checks - before); }
-    { let before = out.checks; gen::eq_6::run(&mut out); println!("RAN\teq_6\t{}", out.checks - before); }
-    { let before = out.checks; gen::eq_7::run(&mut out); println!("RAN\teq_7\t{}", out.checks - before); }
-    { let before = out.checks; gen::eq_8::run(&mut out); println!("RAN\teq_8\t{}", out.checks - before); }
-    { let before = out.checks; gen::eq_9::run(&mut out); println!("RAN\teq_9\t{}", out.checks - before); }
-    { let before = out.checks; gen::eq_10::run(&mut out); println!("RAN\teq_10\t{}", out.checks - before); }
-    { let before = out.checks; gen::eq_11::run(&mut out); println!("RAN\teq_11\t{}", out.checks - before); }
-    { let before = out.checks; gen::eq_12::run(&mut out); println!("RAN\teq_12\t{}", out.checks - before); }
-    { let before = out.checks; gen::eq_13::run(&mut out); println!("RAN\teq_13\t{}", out.checks - before); }
-    { let before = out.checks; gen::eq_14::run(&mut out); println!("RAN\teq_14\t{}", out.checks - before); }
-    { let before = out.checks; gen::eq_15::run(&mut out); println!("RAN\teq_15\t{}", out.checks - before); }
-    { let before = out.checks; gen::eq_16::run(&mut out); println!("RAN\teq_16\t{}", out.checks - before); }
-    { let before = out.checks; gen::eq_17::run(&mut out); println!("RAN\teq_17\t{}", out.checks - before); }
-    { let before = out.checks; gen::eq_18::run(&mut out); println!("RAN\teq_18\t{}", out.checks - before); }
-    { let before = out.checks; gen::eq_19::run(&mut out); println!("RAN\teq_19\t{}", out.checks - before); }
-    { let before = out.checks; gen::eq_20::run(&mut out); println!("RAN\teq_20\t{}", out.checks - before); }
-    { let before = out.checks; gen::eq_21::run(&mut out); println!("RAN\teq_21\t{}", out.checks - before); }
-    { let before = out.checks; gen::eq_22::run(&mut out); println!("RAN\teq_22\t{}", out.checks - before); }
-    { let before = out.checks; gen::eq_23::run(&mut out); println!("RAN\teq_23\t{}", out.checks - before); }
-    { let before = out.checks; gen::eq_24::run(&mut out); println!("RAN\teq_24\t{}", out.checks - before); }
-    { let before = out.checks; gen::eq_25::run(&mut out); println!("RAN\teq_25\t{}", out.checks - before); }
-    { let before = out.checks; gen::eq_26::run(&mut out); println!("RAN\teq_26\t{}", out.checks - before); }
-    { let before = out.checks; gen::eq_27::run(&mut out); println!("RAN\teq_27\t{}", out.checks - before); }
-    { let before = out.checks; gen::eq_28::run(&mut out); println!("RAN\teq_28\t{}", out.checks - before); }
-    { let before = out.checks; gen::eq_29::run(&mut out); println!("RAN\teq_29\t{}", out.checks - before); }
-    { let before = out.checks; gen::eq_30::run(&mut out); println!("RAN\teq_30\t{}", out.checks - before); }
-    { let before = out.checks; gen::eq_31::run(&mut out); println!("RAN\teq_31\t{}", out.checks - before); }
-    { let before = out.checks; gen::eq_32::run(&mut out); println!("RAN\teq_32\t{}", out.checks - before); }
-    { let before = out.checks; gen::eq_33::run(&mut out); println!("RAN\teq_33\t{}", out.checks - before); }
-    { let before = out.checks; gen::eq_34::run(&mut out); println!("RAN\teq_34\t{}", out.checks - before); }
-    { let before = out.checks; gen::eq_35::run(&mut out); println!("RAN\teq_35\t{}", out.checks - before); }
-    { let before = out.checks; gen::eq_36::run(&mut out); println!("RAN\teq_36\t{}", out.checks - before); }
-    { let before = out.checks; gen::eq_37::run(&mut out); println!("RAN\teq_37\t{}", out.checks - before); }
-    { let before = out.checks; gen::eq_38::run(&mut out); println!("RAN\teq_38\t{}", out.checks - before); }
-    { let before = out.checks; gen::eq_39::run(&mut out); println!("RAN\teq_39\t{}", out.checks - before); }
-    { let before = out.checks; gen::eq_40::run(&mut out); println!("RAN\teq_40\t{}", out.checks - before); }
-    { let before = out.checks; gen::eq_41::run(&mut out); println!("RAN\teq_41\t{}", out.checks - before); }
-    { let before = out.checks; gen::eq_42::run(&mut out); println!("RAN\teq_42\t{}", out.checks - before); }
-    { let before = out.checks; gen::eq_43::run(&mut out); println!("RAN\teq_43\t{}", out.checks - before); }
-    { let before = out.checks; gen::eq_44::run(&mut out); println!("RAN\teq_44\t{}", out.checks - before); }
-    { let before = out.checks; gen::eq_45::run(&mut out); println!("RAN\teq_45\t{}", out.checks - before); }
-    { let before = out.checks; gen::eq_46::run(&mut out); println!("RAN\teq_46\t{}", out.checks - before); }
-    { let before = out.checks; gen::eq_47::run(&mut out); println!("RAN\teq_47\t{}", out.checks - before); }
-    { let before = out.checks; gen::eq_48::run(&mut out); println!("RAN\teq_48\t{}", out.checks - before); }
-    { let before = out.checks; gen::eq_49::run(&mut out); println!("RAN\teq_49\t{}", out.checks - before); }
-    { let before = out.checks; gen::eq_50::run(&mut out); println!("RAN\teq_50\t{}", out.checks - before); }
-    { let before = out.checks; gen::eq_51::run(&mut out); println!("RAN\teq_51\t{}", out.checks - before); }
-    { let before = out.checks; gen::eq_52::run(&mut out); println!("RAN\teq_52\t{}", out.checks - before); }
-    { let before = out.checks; gen::eq_53::run(&mut out); println!("RAN\teq_53\t{}", out.checks - before); }
-    { let before = out.checks; gen::eq_54::run(&mut out); println!("RAN\teq_54\t{}", out.checks - before); }
-    { let before = out.checks; gen::eq_55::run(&mut out); println!("RAN\teq_55\t{}", out.checks - before); }
-    { let before = out.checks; gen::eq_56::run(&mut out); println!("RAN\teq_56\t{}", out.checks - before); }
-    { let before = out.checks; gen::eq_57::run(&mut out); println!("RAN\teq_57\t{}", out.checks - before); }
-    { let before = out.checks; gen::eq_58::run(&mut out); println!("RAN\teq_58\t{}", out.checks - before); }
-    { let before = out.checks; gen::eq_59::run(&mut out); println!("RAN\teq_59\t{}", out.checks - before); }
-    { let before = out.checks; gen::eq_60::run(&mut out); println!("RAN\teq_60\t{}", out.checks - before); }
-    { let before = out.checks; gen::eq_61::run(&mut out); println!("RAN\teq_61\t{}", out.checks - before); }
-    { let before = out.checks; gen::eq_62::run(&mut out); println!("RAN\teq_62\t{}", out.checks - before); }
-    { let before = out.checks; gen::eq_63::run(&mut out); println!("RAN\teq_63\t{}", out.checks - before); }
-    { let before = out.checks; gen::eq_64::run(&mut out); println!("RAN\teq_64\t{}", out.checks - before); }
-    { let before = out.checks; gen::eq_65::run(&mut out); println!("RAN\teq_65\t{}", out.checks - before); }
-    { let before = out.checks; gen::eq_66::run(&mut out); println!("RAN\teq_66\t{}", out.checks - before); }
-    { let before = out.checks; gen::eq_67::run(&mut out); println!("RAN\teq_67\t{}", out.checks - before); }
-    { let before = out.checks; gen::eq_68::run(&mut out); println!("RAN\teq_68\t{}", out.checks - before); }
-    { let before = out.checks; gen::eq_69::run(&mut out); println!("RAN\teq_69\t{}", out.checks - before); }
-    { let before = out.checks; gen::eq_70::run(&mut out); println!("RAN\teq_70\t{}", out.checks - before); }
-    { let before = out.checks; gen::eq_71::run(&mut out); println!("RAN\teq_71\t{}", out.checks - before); }
-    { let before = out.checks; gen::eq_72::run(&mut out); println!("RAN\teq_72\t{}", out.checks - before); }
-    { let before = out.checks; gen::eq_73::run(&mut out); println!("RAN\teq_73\t{}", out.checks - before); }
-    { let before = out.checks; gen::eq_74::run(&mut out); println!("RAN\teq_74\t{}", out.checks - before); }
-    { let before = out.checks; gen::eq_75::run(&mut out); println!("RAN\teq_75\t{}", out.checks - before); }
-    { let before = out.checks; gen::eq_76::run(&mut out); println!("RAN\teq_76\t{}", out.checks - before); }
-    { let before = out.checks; gen::eq_77::run(&mut out); println!("RAN\teq_77\t{}", out.checks - before); }
-    { let before = out.checks; gen::eq_78::run(&mut out); println!("RAN\teq_78\t{}", out.checks - before); }
-    { let before = out.checks; gen::eq_79::run(&mut out); println!("RAN\teq_79\t{}", out.checks - before); }
-    { let before = out.checks; gen::eq_80::run(&mut out); println!("RAN\teq_80\t{}", out.checks - before); }
-    { let before = out.checks; gen::eq_81::run(&mut out); println!("RAN\teq_81\t{}", out.checks - before); }
-    { let before = out.checks; gen::eq_82::run(&mut out); println!("RAN\teq_82\t{}", out.checks - before); }
-    { let before = out.checks; gen::eq_83::run(&mut out); println!("RAN\teq_83\t{}", out.checks - before); }
-    { let before = out.checks; gen::eq_84::run(&mut out); println!("RAN\teq_84\t{}", out.checks - before); }
-    { let before = out.checks; gen::eq_85::run(&mut out); println!("RAN\teq_85\t{}", out.checks - before); }
-    { let before = out.checks; gen::eq_86::run(&mut out); println!("RAN\teq_86\t{}", out.checks - before); }
-    { let before = out.checks; gen::eq_87::run(&mut out); println!("RAN\teq_87\t{}", out.checks - before); }
-    { let before = out.checks; gen::eq_88::run(&mut out); println!("RAN\teq_88\t{}", out.checks - before); }
-    { let before = out.checks; gen::eq_89::run(&mut out); println!("RAN\teq_89\t{}", out.checks - before); }
-    { let before = out.checks; gen::eq_90::run(&mut out); println!("RAN\teq_90\t{}", out.checks - before); }
-    { let before = out.checks; gen::eq_91::run(&mut out); println!("RAN\teq_91\t{}", out.checks - before); }
-    { let before = out.checks; gen::eq_92::run(&mut out); println!("RAN\teq_92\t{}", out.checks - before); }
-    { let before = out.checks; gen::eq_93::run(&mut out); println!("RAN\teq_93\t{}", out.checks - before); }
-    { let before = out.checks; gen::eq_94::run(&mut out); println!("RAN\teq_94\t{}", out.checks - before); }
-    { let before = out.checks; gen::eq_95::run(&mut out); println!("RAN\teq_95\t{}", out.checks - before); }
-    { let before = out.checks; gen::eq_96::run(&mut out); println!("RAN\teq_96\t{}", out.checks - before); }
-    { let before = out.checks; gen::eq_97::run(&mut out); println!("RAN\teq_97\t{}", out.checks - before); }
-    { let before = out.checks; gen::eq_98::run(&mut out); println!("RAN\teq_98\t{}", out.checks - before); }
-    { let before = out.checks; gen::eq_99::run(&mut out); println!("RAN\teq_99\t{}", out.checks - before); }
-    { let before = out.checks; gen::eq_100::run(&mut out); println!("RAN\teq_100\t{}", out.checks - before); }
-    { let before = out.checks; gen::eq_101::run(&mut out); println!("RAN\teq_101\t{}", out.checks - before); }
-    { let before = out.checks; gen::eq_102::run(&mut out); println!("RAN\teq_102\t{}", out.checks - before); }
-    { let before = out.checks; gen::eq_103::run(&mut out); println!("RAN\teq_103\t{}", out.checks - before); }
-    { let before = out.checks; gen::eq_104::run(&mut out); println!("RAN\teq_104\t{}", out.checks - before); }
-    { let before = out.checks; gen::eq_105::run(&mut out); println!("RAN\teq_105\t{}", out.checks - before); }
-    { let before = out.checks; gen::eq_106::run(&mut out); println!("RAN\teq_106\t{}", out.checks - before); }
-    { let before = out.checks; gen::eq_107::run(&mut out); println!("RAN\teq_107\t{}", out.checks - before); }
-    { let before = out.checks; gen::eq_108::run(&mut out); println!("RAN\teq_108\t{}", out.checks - before); }
-    { let before = out.checks; gen::eq_109::run(&mut out); println!("RAN\teq_109\t{}", out.checks - before); }
-    { let before = out.checks; gen::eq_110::run(&mut out); println!("RAN\teq_110\t{}", out.checks - before); }
-    { let before = out.checks; gen::eq_111::run(&mut out); println!("RAN\teq_111\t{}", out.checks - before); }
-    { let before = out.checks; gen::eq_112::run(&mut out); println!("RAN\teq_112\t{}", out.checks - before); }
-    { let before = out.checks; gen::eq_113::run(&mut out); println!("RAN\teq_113\t{}", out.checks - before); }
-    { let before = out.checks; gen::eq_114::run(&mut out); println!("RAN\teq_114\t{}", out.checks - before); }
-    { let before = out.checks; gen::eq_115::run(&mut out); println!("RAN\teq_115\t{}", out.checks - before); }
-    { let before = out.checks; gen::eq_116::run(&mut out); println!("RAN\teq_116\t{}", out.checks - before); }
-    { let before = out.checks; gen::eq_117::run(&mut out); println!("RAN\teq_117\t{}", out.checks - before); }
-    { let before = out.checks; gen::eq_118::run(&mut out); println!("RAN\teq_118\t{}", out.checks - before); }
-    { let before = out.checks; gen::eq_119::run(&mut out); println!("RAN\teq_119\t{}", out.checks - before); }
-    { let before = out.checks; gen::eq_120::run(&mut out); println!("RAN\teq_120\t{}", out.checks - before); }
-    { let before = out.checks; gen::eq_121::run(&mut out); println!("RAN\teq_121\t{}", out.checks - before); }
-    { let before = out.checks; gen::eq_122::run(&mut out); println!("RAN\teq_122\t{}", out.checks - before); }
-    { let before = out.checks; gen::eq_123::run(&mut out); println!("RAN\teq_123\t{}", out.checks - before); }
-    { let before = out.checks; gen::eq_124::run(&mut out); println!("RAN\teq_124\t{}", out.checks - before); }
-    { let before = out.checks; gen::eq_125::run(&mut out); println!("RAN\teq_125\t{}", out.checks - before); }
-    { let before = out.checks; gen::eq_126::run(&mut out); println!("RAN\teq_126\t{}", out.checks - before); }
-    { let before = out.checks; gen::eq_127::run(&mut out); println!("RAN\teq_127\t{}", out.checks - before); }
-    { let before = out.checks; gen::eq_128::run(&mut out); println!("RAN\teq_128\t{}", out.checks - before); }
-    { let before = out.checks; gen::eq_129::run(&mut out); println!("RAN\teq_129\t{}", out.checks - before); }
-    { let before = out.checks; gen::eq_130::run(&mut out); println!("RAN\teq_130\t{}", out.checks - before); }
-    { let before = out.checks; gen::eq_131::run(&mut out); println!("RAN\teq_131\t{}", out.checks - before); }
-    { let before = out.checks; gen::eq_132::run(&mut out); println!("RAN\teq_132\t{}", out.checks - before); }
-    { let before = out.checks; gen::eq_133::run(&mut out); println!("RAN\teq_133\t{}", out.checks - before); }
-    { let before = out.checks; gen::eq_134::run(&mut out); println!("RAN\teq_134\t{}", out.checks - before); }
-    { let before = out.checks; gen::eq_135::run(&mut out); println!("RAN\teq_135\t{}", out.checks - before); }
-    { let before = out.checks; gen::eq_136::run(&mut out); println!("RAN\teq_136\t{}", out.checks - before); }
-    { let before = out.checks; gen::eq_137::run(&mut out); println!("RAN\teq_137\t{}", out.checks - before); }
-    { let before = out.checks; gen::eq_138::run(&mut out); println!("RAN\teq_138\t{}", out.checks - before); }
-    { let before = out.checks; gen::eq_139::run(&mut out); println!("RAN\teq_139\t{}", out.checks - before); }
-    { let before = out.checks; gen::eq_140::run(&mut out); println!("RAN\teq_140\t{}", out.checks - before); }
-    { let before = out.checks; gen::eq_141::run(&mut out); println!("RAN\teq_141\t{}", out.checks - before); }
-    { let before = out.checks; gen::eq_142::run(&mut out); println!("RAN\teq_142\t{}", out.checks - before); }
-    { let before = out.checks; gen::eq_143::run(&mut out); println!("RAN\teq_143\t{}", out.checks - before); }
-    { let before = out.checks; gen::eq_144::run(&mut out); println!("RAN\teq_144\t{}", out.checks - before); }
-    { let before = out.checks; gen::eq_145::run(&mut out); println!("RAN\teq_145\t{}", out.checks - before); }
-    { let before = out.checks; gen::eq_146::run(&mut out); println!("RAN\teq_146\t{}", out.checks - before); }
-    { let before = out.checks; gen::eq_147::run(&mut out); println!("RAN\teq_147\t{}", out.checks - before); }
-    { let before = out.checks; gen::eq_148::run(&mut out); println!("RAN\teq_148\t{}", out.checks - before); }
-    { let before = out.checks; gen::eq_149::run(&mut out); println!("RAN\teq_149\t{}", out.checks - before); }
-    { let before = out.checks; gen::hash_0::run(&mut out); println!("RAN\thash_0\t{}", out.checks - before); }
-    { let before = out.checks; gen::hash_1::run(&mut out); println!("RAN\thash_1\t{}", out.checks - before); }
-    { let before = out.checks; gen::hash_2::run(&mut out); println!("RAN\thash_2\t{}", out.checks - before); }
-    { let before = out.checks; gen::hash_3::run(&mut out); println!("RAN\thash_3\t{}", out.checks - before); }
-    { let before = out.checks; gen::hash_4::run(&mut out); println!("RAN\thash_4\t{}", out.checks - before); }
-    { let before = out.checks; gen::hash_5::run(&mut out); println!("RAN\thash_5\t{}", out.checks - before); }
-    { let before = out.checks; gen::hash_6::run(&mut out); println!("RAN\thash_6\t{}", out.checks - before); }
-    { let before = out.checks; gen::hash_7::run(&mut out); println!("RAN\thash_7\t{}", out.checks - before); }
-    { let before = out.checks; gen::hash_8::run(&mut out); println!("RAN\thash_8\t{}", out.checks - before); }
-    { let before = out.checks; gen::hash_9::run(&mut out); println!("RAN\thash_9\t{}", out.checks - before); }
-    { let before = out.checks; gen::hash_10::run(&mut out); println!("RAN\thash_10\t{}", out.checks - before); }
-    { let before = out.checks; gen::hash_11::run(&mut out); println!("RAN\thash_11\t{}", out.checks - before); }
-    { let before = out.checks; gen::hash_12::run(&mut out); println!("RAN\thash_12\t{}", out.checks - before); }
-    { let before = out.checks; gen::hash_13::run(&mut out); println!("RAN\thash_13\t{}", out.checks - before); }
-    { let before = out.checks; gen::hash_14::run(&mut out); println!("RAN\thash_14\t{}", out.checks - before); }
-    { let before = out.checks; gen::hash_15::run(&mut out); println!("RAN\thash_15\t{}", out.checks - before); }
-    { let before = out.checks; gen::hash_16::run(&mut out); println!("RAN\thash_16\t{}", out.checks - before); }
-    { let before = out.checks; gen::hash_17::run(&mut out); println!("RAN\thash_17\t{}", out.checks - before); }
-    { let before = out.checks; gen::hash_18::run(&mut out); println!("RAN\thash_18\t{}", out.checks - before); }
-    { let before = out.checks; gen::hash_19::run(&mut out); println!("RAN\thash_19\t{}", out.checks - before); }
-    { let before = out.checks; gen::hash_20::run(&mut out); println!("RAN\thash_20\t{}", out.checks - before); }
-    { let before = out.checks; gen::hash_21::run(&mut out); println!("RAN\thash_21\t{}", out.checks - before); }
-    { let before = out.checks; gen::hash_22::run(&mut out); println!("RAN\thash_22\t{}", out.checks - before); }
-    { let before = out.checks; gen::hash_23::run(&mut out); println!("RAN\thash_23\t{}", out.checks - before); }
-    { let before = out.checks; gen::hash_24::run(&mut out); println!("RAN\thash_24\t{}", out.checks - before); }
-    { let before = out.checks; gen::hash_25::run(&mut out); println!("RAN\thash_25\t{}", out.checks - before); }
-    { let before = out.checks; gen::hash_26::run(&mut out); println!("RAN\thash_26\t{}", out.checks - before); }
-    { let before = out.checks; gen::hash_27::run(&mut out); println!("RAN\thash_27\t{}", out.checks - before); }
-    { let before = out.checks; gen::hash_28::run(&mut out); println!("RAN\thash_28\t{}", out.checks - before); }
-    { let before = out.checks; gen::hash_29::run(&mut out); println!("RAN\thash_29\t{}", out.checks - before); }
-    { let before = out.checks; gen::hash_30::run(&mut out); println!("RAN\thash_30\t{}", out.checks - before); }
-    { let before = out.checks; gen::hash_31::run(&mut out); println!("RAN\thash_31\t{}", out.checks - before); }
-    { let before = out.checks; gen::hash_32::run(&mut out); println!("RAN\thash_32\t{}", out.checks - before); }
-    { let before = out.checks; gen::hash_33::run(&mut out); println!("RAN\thash_33\t{}", out.checks - before); }
-    { let before = out.checks; gen::hash_34::run(&mut out); println!("RAN\thash_34\t{}", out.checks - before); }
-    { let before = out.checks; gen::hash_35::run(&mut out); println!("RAN\thash_35\t{}", out.checks - before); }
-    { let before = out.checks; gen::hash_36::run(&mut out); println!("RAN\thash_36\t{}", out.checks - before); }
-    { let before = out.checks; gen::hash_37::run(&mut out); println!("RAN\thash_37\t{}", out.checks - before); }
-    { let before = out.checks; gen::hash_38::run(&mut out); println!("RAN\thash_38\t{}", out.checks - before); }
-    { let before = out.checks; gen::hash_39::run(&mut out); println!("RAN\thash_39\t{}", out.checks - before); }
-    { let before = out.checks; gen::hash_40::run(&mut out); println!("RAN\thash_40\t{}", out.checks - before); }
-    { let before = out.checks; gen::hash_41::run(&mut out); println!("RAN\thash_41\t{}", out.checks - before); }
-    { let before = out.checks; gen::hash_42::run(&mut out); println!("RAN\thash_42\t{}", out.checks - before); }
-    { let before = out.checks; gen::hash_43::run(&mut out); println!("RAN\thash_43\t{}", out.checks - before); }
-    { let before = out.checks; gen::hash_44::run(&mut out); println!("RAN\thash_44\t{}", out.checks - before); }
-    { let before = out.checks; gen::hash_45::run(&mut out); println!("RAN\thash_45\t{}", out.checks - before); }
-    { let before = out.checks; gen::hash_46::run(&mut out); println!("RAN\thash_46\t{}", out.checks - before); }
-    { let before = out.checks; gen::hash_47::run(&mut out); println!("RAN\thash_47\t{}", out.checks - before); }
-    { let before = out.checks; gen::hash_48::run(&mut out); println!("RAN\thash_48\t{}", out.checks - before); }
-    { let before = out.checks; gen::hash_49::run(&mut out); println!("RAN\thash_49\t{}", out.checks - before); }
-    { let before = out.checks; gen::hash_50::run(&mut out); println!("RAN\thash_50\t{}", out.checks - before); }
-    { let before = out.checks; gen::hash_51::run(&mut out); println!("RAN\thash_51\t{}", out.checks - before); }
-    { let before = out.checks; gen::hash_52::run(&mut out); println!("RAN\thash_52\t{}", out.checks - before); }
-    { let before = out.checks; gen::hash_53::run(&mut out); println!("RAN\thash_53\t{}", out.checks - before); }
-    { let before = out.checks; gen::hash_54::run(&mut out); println!("RAN\thash_54\t{}", out.checks - before); }
-    { let before = out.checks; gen::hash_55::run(&mut out); println!("RAN\thash_55\t{}", out.checks - before); }
-    { let before = out.checks; gen::hash_56::run(&mut out); println!("RAN\thash_56\t{}", out.checks - before); }
-    { let before = out.checks; gen::hash_57::run(&mut out); println!("RAN\thash_57\t{}", out.checks - before); }
-    { let before = out.checks; gen::hash_58::run(&mut out); println!("RAN\thash_58\t{}", out.checks - before); }
-    { let before = out.checks; gen::hash_59::run(&mut out); println!("RAN\thash_59\t{}", out.checks - before); }
-    { let before = out.checks; gen::hash_60::run(&mut out); println!("RAN\thash_60\t{}", out.checks - before); }
-    { let before = out.checks; gen::hash_61::run(&mut out); println!("RAN\thash_61\t{}", out.checks - before); }
-    { let before = out.checks; gen::hash_62::run(&mut out); println!("RAN\thash_62\t{}", out.checks - before); }
-    { let before = out.checks; gen::hash_63::run(&mut out); println!("RAN\thash_63\t{}", out.checks - before); }
-    { let before = out.checks; gen::hash_64::run(&mut out); println!("RAN\thash_64\t{}", out.checks - before); }
-    { let before = out.checks; gen::hash_65::run(&mut out); println!("RAN\thash_65\t{}", out.checks - before); }
-    { let before = out.checks; gen::hash_66::run(&mut out); println!("RAN\thash_66\t{}", out.checks - before); }
-    { let before = out.checks; gen::hash_67::run(&mut out); println!("RAN\thash_67\t{}", out.checks - before); }
-    { let before = out.checks; gen::hash_68::run(&mut out); println!("RAN\thash_68\t{}", out.checks - before); }
-    { let before = out.checks; gen::hash_69::run(&mut out); println!("RAN\thash_69\t{}", out.checks - before); }
-    { let before = out.checks; gen::hash_70::run(&mut out); println!("RAN\thash_70\t{}", out.checks - before); }
-    { let before = out.checks; gen::hash_71::run(&mut out); println!("RAN\thash_71\t{}", out.checks - before); }
-    { let before = out.checks; gen::hash_72::run(&mut out); println!("RAN\thash_72\t{}", out.checks - before); }
-    { let before = out.checks; gen::hash_73::run(&mut out); println!("RAN\thash_73\t{}", out.checks - before); }
-    { let before = out.checks; gen::hash_74::run(&mut out); println!("RAN\thash_74\t{}", out.checks - before); }
-    { let before = out.checks; gen::hash_75::run(&mut out); println!("RAN\thash_75\t{}", out.checks - before); }
-    { let before = out.checks; gen::hash_76::run(&mut out); println!("RAN\thash_76\t{}", out.checks - before); }
-    { let before = out.checks; gen::hash_77::run(&mut out); println!("RAN\thash_77\t{}", out.checks - before); }
-    { let before = out.checks; gen::hash_78::run(&mut out); println!("RAN\thash_78\t{}", out.checks - before); }
-    { let before = out.checks; gen::hash_79::run(&mut out); println!("RAN\thash_79\t{}", out.checks - before); }
-    { let before = out.checks; gen::hash_80::run(&mut out); println!("RAN\thash_80\t{}", out.checks - before); }
-    { let before = out.checks; gen::hash_81::run(&mut out); println!("RAN\thash_81\t{}", out.checks - before); }
-    { let before = out.checks; gen::hash_82::run(&mut out); println!("RAN\thash_82\t{}", out.checks - before); }
-    { let before = out.checks; gen::hash_83::run(&mut out); println!("RAN\thash_83\t{}", out.checks - before); }
-    { let before = out.checks; gen::hash_84::run(&mut out); println!("RAN\thash_84\t{}", out.checks - before); }
-    { let before = out.checks; gen::hash_85::run(&mut out); println!("RAN\thash_85\t{}", out.checks - before); }
-    { let before = out.checks; gen::hash_86::run(&mut out); println!("RAN\thash_86\t{}", out.checks - before); }
-    { let before = out.checks; gen::hash_87::run(&mut out); println!("RAN\thash_87\t{}", out.checks - before); }
-    { let before = out.checks; gen::hash_88::run(&mut out); println!("RAN\thash_88\t{}", out.checks - before); }
-    { let before = out.checks; gen::hash_89::run(&mut out); println!("RAN\thash_89\t{}", out.checks - before); }
-    { let before = out.checks; gen::hash_90::run(&mut out); println!("RAN\thash_90\t{}", out.checks - before); }
-    { let before = out.checks; gen::hash_91::run(&mut out); println!("RAN\thash_91\t{}", out.checks - before); }
-    { let before = out.checks; gen::hash_92::run(&mut out); println!("RAN\thash_92\t{}", out.checks - before); }
-    { let before = out.checks; gen::hash_93::run(&mut out); println!("RAN\thash_93\t{}", out.checks - before); }
-    { let before = out.checks; gen::hash_94::run(&mut out); println!("RAN\thash_94\t{}", out.checks - before); }
-    { let before = out.checks; gen::hash_95::run(&mut out); println!("RAN\thash_95\t{}", out.checks - before); }
-    { let before = out.checks; gen::hash_96::run(&mut out); println!("RAN\thash_96\t{}", out.checks - before); }
-    { let before = out.checks; gen::hash_97::run(&mut out); println!("RAN\thash_97\t{}", out.checks - before); }
-    { let before = out.checks; gen::hash_98::run(&mut out); println!("RAN\thash_98\t{}", out.checks - before); }
-    { let before = out.checks; gen::hash_99::run(&mut out); println!("RAN\thash_99\t{}", out.checks - before); }
-    { let before = out.checks; gen::hash_100::run(&mut out); println!("RAN\thash_100\t{}", out.checks - before); }
-    { let before = out.checks; gen::hash_101::run(&mut out); println!("RAN\thash_101\t{}", out.checks - before); }
-    { let before = out.checks; gen::hash_102::run(&mut out); println!("RAN\thash_102\t{}", out.checks - before); }
-    { let before = out.checks; gen::hash_103::run(&mut out); println!("RAN\thash_103\t{}", out.checks - before); }
-    { let before = out.checks; gen::hash_104::run(&mut out); println!("RAN\thash_104\t{}", out.checks - before); }
-    { let before = out.checks; gen::hash_105::run(&mut out); println!("RAN\thash_105\t{}", out.checks - before); }
-    { let before = out.checks; gen::hash_106::run(&mut out); println!("RAN\thash_106\t{}", out.checks - before); }
-    { let before = out.checks; gen::hash_107::run(&mut out); println!("RAN\thash_107\t{}", out.checks - before); }
-    { let before = out.checks; gen::hash_108::run(&mut out); println!("RAN\thash_108\t{}", out.checks - before); }
-    { let before = out.checks; gen::hash_109::run(&mut out); println!("RAN\thash_109\t{}", out.checks - before); }
-    { let before = out.checks; gen::hash_110::run(&mut out); println!("RAN\thash_110\t{}", out.checks - before); }
-    { let before = out.checks; gen::hash_111::run(&mut out); println!("RAN\thash_111\t{}", out.checks - before); }
-    { let before = out.checks; gen::hash_112::run(&mut out); println!("RAN\thash_112\t{}", out.checks - before); }
-    { let before = out.checks; gen::hash_113::run(&mut out); println!("RAN\thash_113\t{}", out.checks - before); }
-    { let before = out.checks; gen::hash_114::run(&mut out); println!("RAN\thash_114\t{}", out.checks - before); }
-    { let before = out.checks; gen::hash_115::run(&mut out); println!("RAN\thash_115\t{}", out.checks - before); }
-    { let before = out.checks; gen::hash_116::run(&mut out); println!("RAN\thash_116\t{}", out.checks - before); }
-    { let before = out.checks; gen::hash_117::run(&mut out); println!("RAN\thash_117\t{}", out.checks - before); }
-    { let before = out.checks; gen::hash_118::run(&mut out); println!("RAN\thash_118\t{}", out.checks - before); }
-    { let before = out.checks; gen::hash_119::run(&mut out); println!("RAN\thash_119\t{}", out.checks - before); }
-    { let before = out.checks; gen::hash_120::run(&mut out); println!("RAN\thash_120\t{}", out.checks - before); }
-    { let before = out.checks; gen::hash_121::run(&mut out); println!("RAN\thash_121\t{}", out.checks - before); }
-    { let before = out.checks; gen::hash_122::run(&mut out); println!("RAN\thash_122\t{}", out.checks - before); }
-    { let before = out.checks; gen::hash_123::run(&mut out); println!("RAN\thash_123\t{}", out.checks - before); }
-    { let before = out.checks; gen::hash_124::run(&mut out); println!("RAN\thash_124\t{}", out.checks - before); }
-    { let before = out.checks; gen::hash_125::run(&mut out); println!("RAN\thash_125\t{}", out.checks - before); }
-    { let before = out.checks; gen::hash_126::run(&mut out); println!("RAN\thash_126\t{}", out.checks - before); }
-    { let before = out.checks; gen::hash_127::run(&mut out); println!("RAN\thash_127\t{}", out.checks - before); }
-    { let before = out.checks; gen::hash_128::run(&mut out); println!("RAN\thash_128\t{}", out.checks - before); }
-    { let before = out.checks; gen::hash_129::run(&mut out); println!("RAN\thash_129\t{}", out.checks - before); }
-    { let before = out.checks; gen::hash_130::run(&mut out); println!("RAN\thash_130\t{}", out.checks - before); }
-    { let before = out.checks; gen::hash_131::run(&mut out); println!("RAN\thash_131\t{}", out.checks - before); }
-    { let before = out.checks; gen::hash_132::run(&mut out); println!("RAN\thash_132\t{}", out.checks - before); }
-    { let before = out.checks; gen::hash_133::run(&mut out); println!("RAN\thash_133\t{}", out.checks - before); }
-    { let before = out.checks; gen::hash_134::run(&mut out); println!("RAN\thash_134\t{}", out.checks - before); }
-    { let before = out.checks; gen::hash_135::run(&mut out); println!("RAN\thash_135\t{}", out.checks - before); }
-    { let before = out.checks; gen::hash_136::run(&mut out); println!("RAN\thash_136\t{}", out.checks - before); }
-    { let before = out.checks; gen::hash_137::run(&mut out); println!("RAN\thash_137\t{}", out.checks - before); }
-    { let before = out.checks; gen::hash_138::run(&mut out); println!("RAN\thash_138\t{}", out.checks - before); }
-    { let before = out.checks; gen::hash_139::run(&mut out); println!("RAN\thash_139\t{}", out.checks - before); }
-    { let before = out.checks; gen::hash_140::run(&mut out); println!("RAN\thash_140\t{}", out.checks - before); }
-    { let before = out.checks; gen::hash_141::run(&mut out); println!("RAN\thash_141\t{}", out.checks - before); }
-    { let before = out.checks; gen::hash_142::run(&mut out); println!("RAN\thash_142\t{}", out.checks - before); }
-    { let before = out.checks; gen::hash_143::run(&mut out); println!("RAN\thash_143\t{}", out.checks - before); }
-    { let before = out.checks; gen::hash_144::run(&mut out); println!("RAN\thash_144\t{}", out.checks - before); }
-    { let before = out.checks; gen::hash_145::run(&mut out); println!("RAN\thash_145\t{}", out.checks - before); }
-    { let before = out.checks; gen::hash_146::run(&mut out); println!("RAN\thash_146\t{}", out.checks - before); }
-    { let before = out.checks; gen::hash_147::run(&mut out); println!("RAN\thash_147\t{}", out.checks - before); }
-    { let before = out.checks; gen::hash_148::run(&mut out); println!("RAN\thash_148\t{}", out.checks - before); }
-    { let before = out.checks; gen::hash_149::run(&mut out); println!("RAN\thash_149\t{}", out.checks - before); }
-    { let before = out.checks; gen::ord_0::run(&mut out); println!("RAN\tord_0\t{}", out.checks - before); }
-    { let before = out.checks; gen::ord_1::run(&mut out); println!("RAN\tord_1\t{}", out.checks - before); }
-    { let before = out.checks; gen::ord_2::run(&mut out); println!("RAN\tord_2\t{}", out.checks - before); }
-    { let before = out.checks; gen::ord_3::run(&mut out); println!("RAN\tord_3\t{}", out.checks - before); }
-    { let before = out.checks; gen::ord_4::run(&mut out); println!("RAN\tord_4\t{}", out.checks - before); }
-    { let before = out.checks; gen::ord_5::run(&mut out); println!("RAN\tord_5\t{}", out.checks - before); }
-    { let before = out.checks; gen::ord_6::run(&mut out); println!("RAN\tord_6\t{}", out.checks - before); }
-    { let before = out.checks; gen::ord_7::run(&mut out); println!("RAN\tord_7\t{}", out.checks - before); }
-    { let before = out.checks; gen::ord_8::run(&mut out); println!("RAN\tord_8\t{}", out.checks - before); }
-    { let before = out.checks; gen::ord_9::run(&mut out); println!("RAN\tord_9\t{}", out.checks - before); }
-    { let before = out.checks; gen::ord_10::run(&mut out); println!("RAN\tord_10\t{}", out.checks - before); }
-    { let before = out.checks; gen::ord_11::run(&mut out); println!("RAN\tord_11\t{}", out.checks - before); }
-    { let before = out.checks; gen::ord_12::run(&mut out); println!("RAN\tord_12\t{}", out.checks - before); }
-    { let before = out.checks; gen::ord_13::run(&mut out); println!("RAN\tord_13\t{}", out.checks - before); }
-    { let before = out.checks; gen::ord_14::run(&mut out); println!("RAN\tord_14\t{}", out.checks - before); }
-    { let before = out.checks; gen::ord_15::run(&mut out); println!("RAN\tord_15\t{}", out.checks - before); }
-    { let before = out.checks; gen::ord_16::run(&mut out); println!("RAN\tord_16\t{}", out.checks - before); }
-    { let before = out.checks; gen::ord_17::run(&mut out); println!("RAN\tord_17\t{}", out.checks - before); }
-    { let before = out.checks; gen::ord_18::run(&mut out); println!("RAN\tord_18\t{}", out.checks - before); }
-    { let before = out.checks; gen::ord_19::run(&mut out); println!("RAN\tord_19\t{}", out.checks - before); }
-    { let before = out.checks; gen::ord_20::run(&mut out); println!("RAN\tord_20\t{}", out.checks - before); }
-    { let before = out.checks; gen::ord_21::run(&mut out); println!("RAN\tord_21\t{}", out.checks - before); }
-    { let before = out.checks; gen::ord_22::run(&mut out); println!("RAN\tord_22\t{}", out.checks - before); }
-    { let before = out.checks; gen::ord_23::run(&mut out); println!("RAN\tord_23\t{}", out.checks - before); }
-    { let before = out.checks; gen::ord_24::run(&mut out); println!("RAN\tord_24\t{}", out.checks - before); }
-    { let before = out.checks; gen::ord_25::run(&mut out); println!("RAN\tord_25\t{}", out.checks - before); }
-    { let before = out.checks; gen::ord_26::run(&mut out); println!("RAN\tord_26\t{}", out.checks - before); }
-    { let before = out.checks; gen::ord_27::run(&mut out); println!("RAN\tord_27\t{}", out.checks - before); }
-    { let before = out.checks; gen::ord_28::run(&mut out); println!("RAN\tord_28\t{}", out.checks - before); }
-    { let before = out.checks; gen::ord_29::run(&mut out); println!("RAN\tord_29\t{}", out.checks - before); }
-    { let before = out.checks; gen::ord_30::run(&mut out); println!("RAN\tord_30\t{}", out.checks - before); }
-    { let before = out.checks; gen::ord_31::run(&mut out); println!("RAN\tord_31\t{}", out.checks - before); }
-    { let before = out.checks; gen::ord_32::run(&mut out); println!("RAN\tord_32\t{}", out.checks - before); }
-    { let before = out.checks; gen::ord_33::run(&mut out); println!("RAN\tord_33\t{}", out.checks - before); }
-    { let before = out.checks; gen::ord_34::run(&mut out); println!("RAN\tord_34\t{}", out.checks - before); }
-    { let before = out.checks; gen::ord_35::run(&mut out); println!("RAN\tord_35\t{}", out.checks - before); }
-    { let before = out.checks; gen::ord_36::run(&mut out); println!("RAN\tord_36\t{}", out.checks - before); }
-    { let before = out.checks; gen::ord_37::run(&mut out); println!("RAN\tord_37\t{}", out.checks - before); }
-    { let before = out.checks; gen::ord_38::run(&mut out); println!("RAN\tord_38\t{}", out.checks - before); }
-    { let before = out.checks; gen::ord_39::run(&mut out); println!("RAN\tord_39\t{}", out.checks - before); }
-    { let before = out.checks; gen::ord_40::run(&mut out); println!("RAN\tord_40\t{}", out.checks - before); }
-    { let before = out.checks; gen::ord_41::run(&mut out); println!("RAN\tord_41\t{}", out.checks - before); }
-    { let before = out.checks; gen::ord_42::run(&mut out); println!("RAN\tord_42\t{}", out.checks - before); }
-    { let before = out.checks; gen::ord_43::run(&mut out); println!("RAN\tord_43\t{}", out.checks - before); }
-    { let before = out.checks; gen::ord_44::run(&mut out); println!("RAN\tord_44\t{}", out.checks - before); }
-    { let before = out.checks; gen::ord_45::run(&mut out); println!("RAN\tord_45\t{}", out.checks - before); }
-    { let before = out.checks; gen::ord_46::run(&mut out); println!("RAN\tord_46\t{}", out.checks - before); }
-    { let before = out.checks; gen::ord_47::run(&mut out); println!("RAN\tord_47\t{}", out.checks - before); }
-    { let before = out.checks; gen::ord_48::run(&mut out); println!("RAN\tord_48\t{}", out.checks - before); }
-    { let before = out.checks; gen::ord_49::run(&mut out); println!("RAN\tord_49\t{}", out.checks - before); }
-    { let before = out.checks; gen::ord_50::run(&mut out); println!("RAN\tord_50\t{}", out.checks - before); }
-    { let before = out.checks; gen::ord_51::run(&mut out); println!("RAN\tord_51\t{}", out.checks - before); }
-    { let before = out.checks; gen::ord_52::run(&mut out); println!("RAN\tord_52\t{}", out.checks - before); }
-    { let before = out.checks; gen::ord_53::run(&mut out); println!("RAN\tord_53\t{}", out.checks - before); }
-    { let before = out.checks; gen::ord_54::run(&mut out); println!("RAN\tord_54\t{}", out.checks - before); }
-    { let before = out.checks; gen::ord_55::run(&mut out); println!("RAN\tord_55\t{}", out.checks - before); }
-    { let before = out.checks; gen::ord_56::run(&mut out); println!("RAN\tord_56\t{}", out.checks - before); }
-    { let before = out.checks; gen::ord_57::run(&mut out); println!("RAN\tord_57\t{}", out.checks - before); }
-    { let before = out.checks; gen::ord_58::run(&mut out); println!("RAN\tord_58\t{}", out.checks - before); }
-    { let before = out.checks; gen::ord_59::run(&mut out); println!("RAN\tord_59\t{}", out.checks - before); }
-    { let before = out.checks; gen::ord_60::run(&mut out); println!("RAN\tord_60\t{}", out.checks - before); }
-    { let before = out.checks; gen::ord_61::run(&mut out); println!("RAN\tord_61\t{}", out.checks - before); }
-    { let before = out.checks; gen::ord_62::run(&mut out); println!("RAN\tord_62\t{}", out.checks - before); }
-    { let before = out.checks; gen::ord_63::run(&mut out); println!("RAN\tord_63\t{}", out.checks - before); }
-    { let before = out.checks; gen::ord_64::run(&mut out); println!("RAN\tord_64\t{}", out.checks - before); }
-    { let before = out.checks; gen::ord_65::run(&mut out); println!("RAN\tord_65\t{}", out.checks - before); }
-    { let before = out.checks; gen::ord_66::run(&mut out); println!("RAN\tord_66\t{}", out.checks - before); }
-    { let before = out.checks; gen::ord_67::run(&mut out); println!("RAN\tord_67\t{}", out.checks - before); }
-    { let before = out.checks; gen::ord_68::run(&mut out); println!("RAN\tord_68\t{}", out.checks - before); }
-    { let before = out.checks; gen::ord_69::run(&mut out); println!("RAN\tord_69\t{}", out.checks - before); }
-    { let before = out.checks; gen::ord_70::run(&mut out); println!("RAN\tord_70\t{}", out.checks - before); }
-    { let before = out.checks; gen::ord_71::run(&mut out); println!("RAN\tord_71\t{}", out.checks - before); }
-    { let before = out.checks; gen::ord_72::run(&mut out); println!("RAN\tord_72\t{}", out.checks - before); }
-    { let before = out.checks; gen::ord_73::run(&mut out); println!("RAN\tord_73\t{}", out.checks - before); }
-    { let before = out.checks; gen::ord_74::run(&mut out); println!("RAN\tord_74\t{}", out.checks - before); }
-    { let before = out.checks; gen::ord_75::run(&mut out); println!("RAN\tord_75\t{}", out.checks - before); }
-    { let before = out.checks; gen::ord_76::run(&mut out); println!("RAN\tord_76\t{}", out.checks - before); }
-    { let before = out.checks; gen::ord_77::run(&mut out); println!("RAN\tord_77\t{}", out.checks - before); }
-    { let before = out.checks; gen::ord_78::run(&mut out); println!("RAN\tord_78\t{}", out.checks - before); }
-    { let before = out.checks; gen::ord_79::run(&mut out); println!("RAN\tord_79\t{}", out.checks - before); }
-    { let before = out.checks; gen::ord_80::run(&mut out); println!("RAN\tord_80\t{}", out.checks - before); }
-    { let before = out.checks; gen::ord_81::run(&mut out); println!("RAN\tord_81\t{}", out.checks - before); }
-    { let before = out.checks; gen::ord_82::run(&mut out); println!("RAN\tord_82\t{}", out.checks - before); }
-    { let before = out.checks; gen::ord_83::run(&mut out); println!("RAN\tord_83\t{}", out.checks - before); }
-    { let before = out.checks; gen::ord_84::run(&mut out); println!("RAN\tord_84\t{}", out.checks - before); }
-    { let before = out.checks; gen::ord_85::run(&mut out); println!("RAN\tord_85\t{}", out.checks - before); }
-    { let before = out.checks; gen::ord_86::run(&mut out); println!("RAN\tord_86\t{}", out.checks - before); }
-    { let before = out.checks; gen::ord_87::run(&mut out); println!("RAN\tord_87\t{}", out.checks - before); }
-    { let before = out.checks; gen::ord_88::run(&mut out); println!("RAN\tord_88\t{}", out.checks - before); }
-    { let before = out.checks; gen::ord_89::run(&mut out); println!("RAN\tord_89\t{}", out.checks - before); }
-    { let before = out.checks; gen::ord_90::run(&mut out); println!("RAN\tord_90\t{}", out.checks - before); }
-    { let before = out.checks; gen::ord_91::run(&mut out); println!("RAN\tord_91\t{}", out.checks - before); }
-    { let before = out.checks; gen::ord_92::run(&mut out); println!("RAN\tord_92\t{}", out.checks - before); }
-    { let before = out.checks; gen::ord_93::run(&mut out); println!("RAN\tord_93\t{}", out.checks - before); }
-    { let before = out.checks; gen::ord_94::run(&mut out); println!("RAN\tord_94\t{}", out.checks - before); }
-    { let before = out.checks; gen::ord_95::run(&mut out); println!("RAN\tord_95\t{}", out.checks - before); }
-    { let before = out.checks; gen::ord_96::run(&mut out); println!("RAN\tord_96\t{}", out.checks - before); }
-    { let before = out.checks; gen::ord_97::run(&mut out); println!("RAN\tord_97\t{}", out.checks - before); }
-    { let before = out.checks; gen::ord_98::run(&mut out); println!("RAN\tord_98\t{}", out.checks - before); }
-    { let before = out.checks; gen::ord_99::run(&mut out); println!("RAN\tord_99\t{}", out.checks - before); }
-    { let before = out.checks; gen::ord_100::run(&mut out); println!("RAN\tord_100\t{}", out.checks - before); }
-    { let before = out.checks; gen::ord_101::run(&mut out); println!("RAN\tord_101\t{}", out.checks - before); }
-    { let before = out.checks; gen::ord_102::run(&mut out); println!("RAN\tord_102\t{}", out.checks - before); }
-    { let before = out.checks; gen::ord_103::run(&mut out); println!("RAN\tord_103\t{}", out.checks - before); }
-    { let before = out.checks; gen::ord_104::run(&mut out); println!("RAN\tord_104\t{}", out.checks - before); }
-    { let before = out.checks; gen::ord_105::run(&mut out); println!("RAN\tord_105\t{}", out.checks - before); }
-    { let before = out.checks; gen::ord_106::run(&mut out); println!("RAN\tord_106\t{}", out.checks - before); }
-    { let before = out.checks; gen::ord_107::run(&mut out); println!("RAN\tord_107\t{}", out.checks - before); }
-    { let before = out.checks; gen::ord_108::run(&mut out); println!("RAN\tord_108\t{}", out.checks - before); }
-    { let before = out.checks; gen::ord_109::run(&mut out); println!("RAN\tord_109\t{}", out.checks - before); }
-    { let before = out.checks; gen::ord_110::run(&mut out); println!("RAN\tord_110\t{}", out.checks - before); }
-    { let before = out.checks; gen::ord_111::run(&mut out); println!("RAN\tord_111\t{}", out.checks - before); }
-    { let before = out.checks; gen::ord_112::run(&mut out); println!("RAN\tord_112\t{}", out.checks - before); }
-    { let before = out.checks; gen::ord_113::run(&mut out); println!("RAN\tord_113\t{}", out.checks - before); }
-    { let before = out.checks; gen::ord_114::run(&mut out); println!("RAN\tord_114\t{}", out.checks - before); }
-    { let before = out.checks; gen::ord_115::run(&mut out); println!("RAN\tord_115\t{}", out.checks - before); }
-    { let before = out.checks; gen::ord_116::run(&mut out); println!("RAN\tord_116\t{}", out.checks - before); }
-    { let before = out.checks; gen::ord_117::run(&mut out); println!("RAN\tord_117\t{}", out.checks - before); }
-    { let before = out.checks; gen::ord_118::run(&mut out); println!("RAN\tord_118\t{}", out.checks - before); }
-    { let before = out.checks; gen::ord_119::run(&mut out); println!("RAN\tord_119\t{}", out.checks - before); }
-    { let before = out.checks; gen::ord_120::run(&mut out); println!("RAN\tord_120\t{}", out.checks - before); }
-    { let before = out.checks; gen::ord_121::run(&mut out); println!("RAN\tord_121\t{}", out.checks - before); }
-    { let before = out.checks; gen::ord_122::run(&mut out); println!("RAN\tord_122\t{}", out.checks - before); }
-    { let before = out.checks; gen::ord_123::run(&mut out); println!("RAN\tord_123\t{}", out.checks - before); }
-    { let before = out.checks; gen::ord_124::run(&mut out); println!("RAN\tord_124\t{}", out.checks - before); }
-    { let before = out.checks; gen::ord_125::run(&mut out); println!("RAN\tord_125\t{}", out.checks - before); }
-    { let before = out.checks; gen::ord_126::run(&mut out); println!("RAN\tord_126\t{}", out.checks - before); }
-    { let before = out.checks; gen::ord_127::run(&mut out); println!("RAN\tord_127\t{}", out.checks - before); }
-    { let before = out.checks; gen::ord_128::run(&mut out); println!("RAN\tord_128\t{}", out.checks - before); }
-    { let before = out.checks; gen::ord_130::run(&mut out); println!("RAN\tord_130\t{}", out.checks - before); }
-    { let before = out.checks; gen::ord_131::run(&mut out); println!("RAN\tord_131\t{}", out.checks - before); }
-    { let before = out.checks; gen::ord_132::run(&mut out); println!("RAN\tord_132\t{}", out.checks - before); }
-    { let before = out.checks; gen::ord_133::run(&mut out); println!("RAN\tord_133\t{}", out.checks - before); }
-    { let before = out.checks; gen::ord_134::run(&mut out); println!("RAN\tord_134\t{}", out.checks - before); }
-    { let before = out.checks; gen::ord_135::run(&mut out); println!("RAN\tord_135\t{}", out.checks - before); }
-    { let before = out.checks; gen::ord_136::run(&mut out); println!("RAN\tord_136\t{}", out.checks - before); }
-    { let before = out.checks; gen::ord_137::run(&mut out); println!("RAN\tord_137\t{}", out.checks - before); }
-    { let before = out.checks; gen::ord_138::run(&mut out); println!("RAN\tord_138\t{}", out.checks - before); }
-    { let before = out.checks; gen::ord_139::run(&mut out); println!("RAN\tord_139\t{}", out.checks - before); }
-    { let before = out.checks; gen::ord_140::run(&mut out); println!("RAN\tord_140\t{}", out.checks - before); }
-    { let before = out.checks; gen::ord_141::run(&mut out); println!("RAN\tord_141\t{}", out.checks - before); }
-    { let before = out.checks; gen::ord_142::run(&mut out); println!("RAN\tord_142\t{}", out.checks - before); }
-    { let before = out.checks; gen::ord_143::run(&mut out); println!("RAN\tord_143\t{}", out.checks - before); }
-    { let before = out.checks; gen::ord_144::run(&mut out); println!("RAN\tord_144\t{}", out.checks - before); }
-    { let before = out.checks; gen::ord_145::run(&mut out); println!("RAN\tord_145\t{}", out.checks - before); }
-    { let before = out.checks; gen::ord_146::run(&mut out); println!("RAN\tord_146\t{}", out.checks - before); }
-    { let before = out.checks; gen::ord_147::run(&mut out); println!("RAN\tord_147\t{}", out.checks - before); }
-    { let before = out.checks; gen::ord_148::run(&mut out); println!("RAN\tord_148\t{}", out.checks - before); }
-    { let before = out.checks; gen::ord_149::run(&mut out); println!("RAN\tord_149\t{}", out.checks - before); }
-    { let before = out.checks; gen::ordlayout_0::run(&mut out); println!("RAN\tordlayout_0\t{}", out.checks - before); }
-    { let before = out.checks; gen::ordlayout_1::run(&mut out); println!("RAN\tordlayout_1\t{}", out.checks - before); }
-    { let before = out.checks; gen::ordlayout_2::run(&mut out); println!("RAN\tordlayout_2\t{}", out.checks - before); }
-    { let before = out.checks; gen::ordlayout_3::run(&mut out); println!("RAN\tordlayout_3\t{}", out.checks - before); }
-    { let before = out.checks; gen::ordlayout_4::run(&mut out); println!("RAN\tordlayout_4\t{}", out.checks - before); }
-    { let before = out.checks; gen::ordlayout_5::run(&mut out); println!("RAN\tordlayout_5\t{}", out.checks - before); }
-    { let before = out.checks; gen::ordlayout_6::run(&mut out); println!("RAN\tordlayout_6\t{}", out.checks - before); }
-    { let before = out.checks; gen::ordlayout_7::run(&mut out); println!("RAN\tordlayout_7\t{}", out.checks - before); }
-    { let before = out.checks; gen::ordlayout_8::run(&mut out); println!("RAN\tordlayout_8\t{}", out.checks - before); }
-    { let before = out.checks; gen::ordlayout_9::run(&mut out); println!("RAN\tordlayout_9\t{}", out.checks - before); }
-    { let before = out.checks; gen::ordlayout_10::run(&mut out); println!("RAN\tordlayout_10\t{}", out.checks - before); }
-    { let before = out.checks; gen::ordlayout_11::run(&mut out); println!("RAN\tordlayout_11\t{}", out.checks - before); }
-    { let before = out.checks; gen::ordlayout_12::run(&mut out); println!("RAN\tordlayout_12\t{}", out.checks - before); }
-    { let before = out.checks; gen::ordlayout_13::run(&mut out); println!("RAN\tordlayout_13\t{}", out.checks - before); }
-    { let before = out.checks; gen::ordlayout_14::run(&mut out); println!("RAN\tordlayout_14\t{}", out.checks - before); }
-    { let before = out.checks; gen::ordlayout_15::run(&mut out); println!("RAN\tordlayout_15\t{}", out.checks - before); }
-    { let before = out.checks; gen::ordlayout_16::run(&mut out); println!("RAN\tordlayout_16\t{}", out.checks - before); }
-    { let before = out.checks; gen::ordlayout_17::run(&mut out); println!("RAN\tordlayout_17\t{}", out.checks - before); }
-    { let before = out.checks; gen::ordlayout_18::run(&mut out); println!("RAN\tordlayout_18\t{}", out.checks - before); }
-    { let before = out.checks; gen::ordlayout_19::run(&mut out); println!("RAN\tordlayout_19\t{}", out.checks - before); }
-    { let before = out.checks; gen::ordlayout_20::run(&mut out); println!("RAN\tordlayout_20\t{}", out.checks - before); }
-    { let before = out.checks; gen::ordlayout_21::run(&mut out); println!("RAN\tordlayout_21\t{}", out.checks - before); }
-    { let before = out.checks; gen::ordlayout_22::run(&mut out); println!("RAN\tordlayout_22\t{}", out.checks - before); }
-    { let before = out.checks; gen::ordlayout_23::run(&mut out); println!("RAN\tordlayout_23\t{}", out.checks - before); }
-    { let before = out.checks; gen::ordlayout_24::run(&mut out); println!("RAN\tordlayout_24\t{}", out.checks - before); }
-    { let before = out.checks; gen::ordlayout_25::run(&mut out); println!("RAN\tordlayout_25\t{}", out.checks - before); }
-    { let before = out.checks; gen::ordlayout_26::run(&mut out); println!("RAN\tordlayout_26\t{}", out.checks - before); }
-    { let before = out.checks; gen::ordlayout_27::run(&mut out); println!("RAN\tordlayout_27\t{}", out.checks - before); }
-    { let before = out.checks; gen::ordlayout_28::run(&mut out); println!("RAN\tordlayout_28\t{}", out.checks - before); }
-    { let before = out.checks; gen::ordlayout_29::run(&mut out); println!("RAN\tordlayout_29\t{}", out.checks - before); }
-    { let before = out.checks; gen::ordlayout_30::run(&mut out); println!("RAN\tordlayout_30\t{}", out.checks - before); }
-    { let before = out.checks; gen::ordlayout_31::run(&mut out); println!("RAN\tordlayout_31\t{}", out.checks - before); }
-    { let before = out.checks; gen::ordlayout_32::run(&mut out); println!("RAN\tordlayout_32\t{}", out.checks - before); }
-    { let before = out.checks; gen::ordlayout_33::run(&mut out); println!("RAN\tordlayout_33\t{}", out.checks - before); }
-    { let before = out.checks; gen::ordlayout_34::run(&mut out); println!("RAN\tordlayout_34\t{}", out.checks - before); }
-    { let before = out.checks; gen::ordlayout_35::run(&mut out); println!("RAN\tordlayout_35\t{}", out.checks - before); }
-    { let before = out.checks; gen::ordlayout_36::run(&mut out); println!("RAN\tordlayout_36\t{}", out.checks - before); }
-    { let before = out.checks; gen::ordlayout_37::run(&mut out); println!("RAN\tordlayout_37\t{}", out.checks - before); }
-    { let before = out.checks; gen::ordlayout_38::run(&mut out); println!("RAN\tordlayout_38\t{}", out.checks - before); }
-    { let before = out.checks; gen::ordlayout_39::run(&mut out); println!("RAN\tordlayout_39\t{}", out.checks - before); }
-    { let before = out.checks; gen::ordlayout_40::run(&mut out); println!("RAN\tordlayout_40\t{}", out.checks - before); }
-    { let before = out.checks; gen::ordlayout_41::run(&mut out); println!("RAN\tordlayout_41\t{}", out.checks - before); }
-    { let before = out.checks; gen::ordlayout_42::run(&mut out); println!("RAN\tordlayout_42\t{}", out.checks - before); }
-    { let before = out.checks; gen::ordlayout_43::run(&mut out); println!("RAN\tordlayout_43\t{}", out.checks - before); }
-    { let before = out.checks; gen::ordlayout_44::run(&mut out); println!("RAN\tordlayout_44\t{}", out.checks - before); }
-    { let before = out.checks; gen::ordlayout_45::run(&mut out); println!("RAN\tordlayout_45\t{}", out.checks - before); }
-    { let before = out.checks; gen::ordlayout_46::run(&mut out); println!("RAN\tordlayout_46\t{}", out.checks - before); }
-    { let before = out.checks; gen::ordlayout_47::run(&mut out); println!("RAN\tordlayout_47\t{}", out.checks - before); }
-    { let before = out.checks; gen::ordlayout_48::run(&mut out); println!("RAN\tordlayout_48\t{}", out.checks - before); }
-    { let before = out.checks; gen::ordlayout_49::run(&mut out); println!("RAN\tordlayout_49\t{}", out.checks - before); }
-    { let before = out.checks; gen::ordlayout_50::run(&mut out); println!("RAN\tordlayout_50\t{}", out.checks - before); }
-    { let before = out.checks; gen::ordlayout_51::run(&mut out); println!("RAN\tordlayout_51\t{}", out.checks - before); }
-    { let before = out.checks; gen::ordlayout_52::run(&mut out); println!("RAN\tordlayout_52\t{}", out.checks - before); }
-    { let before = out.checks; gen::ordlayout_53::run(&mut out); println!("RAN\tordlayout_53\t{}", out.checks - before); }
-    { let before = out.checks; gen::ordlayout_54::run(&mut out); println!("RAN\tordlayout_54\t{}", out.checks - before); }
-    { let before = out.checks; gen::ordlayout_55::run(&mut out); println!("RAN\tordlayout_55\t{}", out.checks - before); }
-    { let before = out.checks; gen::ordlayout_56::run(&mut out); println!("RAN\tordlayout_56\t{}", out.checks - before); }
-    { let before = out.checks; gen::ordlayout_57::run(&mut out); println!("RAN\tordlayout_57\t{}", out.checks - before); }
-    { let before = out.checks; gen::ordlayout_58::run(&mut out); println!("RAN\tordlayout_58\t{}", out.checks - before); }
-    { let before = out.checks; gen::ordlayout_59::run(&mut out); println!("RAN\tordlayout_59\t{}", out.checks - before); }
-    { let before = out.checks; gen::ordlayout_60::run(&mut out); println!("RAN\tordlayout_60\t{}", out.checks - before); }
-    { let before = out.checks; gen::ordlayout_61::run(&mut out); println!("RAN\tordlayout_61\t{}", out.checks - before); }
-    { let before = out.checks; gen::ordlayout_62::run(&mut out); println!("RAN\tordlayout_62\t{}", out.checks - before); }
-    { let before = out.checks; gen::ordlayout_63::run(&mut out); println!("RAN\tordlayout_63\t{}", out.checks - before); }
-    { let before = out.checks; gen::ordlayout_64::run(&mut out); println!("RAN\tordlayout_64\t{}", out.checks - before); }
-    { let before = out.checks; gen::ordlayout_65::run(&mut out); println!("RAN\tordlayout_65\t{}", out.checks - before); }
-    { let before = out.checks; gen::ordlayout_66::run(&mut out); println!("RAN\tordlayout_66\t{}", out.checks - before); }
-    { let before = out.checks; gen::ordlayout_67::run(&mut out); println!("RAN\tordlayout_67\t{}", out.checks - before); }
-    { let before = out.checks; gen::ordlayout_68::run(&mut out); println!("RAN\tordlayout_68\t{}", out.checks - before); }
-    { let before = out.checks; gen::ordlayout_69::run(&mut out); println!("RAN\tordlayout_69\t{}", out.checks - before); }
-    { let before = out.checks; gen::ordlayout_70::run(&mut out); println!("RAN\tordlayout_70\t{}", out.checks - before); }
-    { let before = out.checks; gen::ordlayout_71::run(&mut out); println!("RAN\tordlayout_71\t{}", out.checks - before); }
-    { let before = out.checks; gen::ordlayout_73::run(&mut out); println!("RAN\tordlayout_73\t{}", out.checks - before); }
-    { let before = out.checks; gen::ordlayout_74::run(&mut out); println!("RAN\tordlayout_74\t{}", out.checks - before); }
-    { let before = out.checks; gen::ordlayout_75::run(&mut out); println!("RAN\tordlayout_75\t{}", out.checks - before); }
-    { let before = out.checks; gen::ordlayout_76::run(&mut out); println!("RAN\tordlayout_76\t{}", out.checks - before); }
-    { let before = out.checks; gen::ordlayout_77::run(&mut out); println!("RAN\tordlayout_77\t{}", out.checks - before); }
-    { let before = out.checks; gen::ordlayout_78::run(&mut out); println!("RAN\tordlayout_78\t{}", out.checks - before); }
-    { let before = out.checks; gen::ordlayout_79::run(&mut out); println!("RAN\tordlayout_79\t{}", out.checks - before); }
-    { let before = out.checks; gen::ordlayout_80::run(&mut out); println!("RAN\tordlayout_80\t{}", out.checks - before); }
-    { let before = out.checks; gen::ordlayout_81::run(&mut out); println!("RAN\tordlayout_81\t{}", out.checks - before); }
-    { let before = out.checks; gen::ordlayout_82::run(&mut out); println!("RAN\tordlayout_82\t{}", out.checks - before); }
-    { let before = out.checks; gen::ordlayout_83::run(&mut out); println!("RAN\tordlayout_83\t{}", out.checks - before); }
-    { let before = out.checks; gen::ordlayout_84::run(&mut out); println!("RAN\tordlayout_84\t{}", out.checks - before); }
-    { let before = out.checks; gen::ordlayout_85::run(&mut out); println!("RAN\tordlayout_85\t{}", out.checks - before); }
-    { let before = out.checks; gen::ordlayout_86::run(&mut out); println!("RAN\tordlayout_86\t{}", out.checks - before); }
-    { let before = out.checks; gen::ordlayout_87::run(&mut out); println!("RAN\tordlayout_87\t{}", out.checks - before); }
-    { let before = out.checks; gen::ordlayout_88::run(&mut out); println!("RAN\tordlayout_88\t{}", out.checks - before); }
-    { let before = out.checks; gen::ordlayout_89::run(&mut out); println!("RAN\tordlayout_89\t{}", out.checks - before); }
-    { let before = out.checks; gen::ordlayout_90::run(&mut out); println!("RAN\tordlayout_90\t{}", out.checks - before); }
-    { let before = out.checks; gen::ordlayout_91::run(&mut out); println!("RAN\tordlayout_91\t{}", out.checks - before); }
-    { let before = out.checks; gen::ordlayout_92::run(&mut out); println!("RAN\tordlayout_92\t{}", out.checks - before); }
-    { let before = out.checks; gen::ordlayout_93::run(&mut out); println!("RAN\tordlayout_93\t{}", out.checks - before); }
-    { let before = out.checks; gen::ordlayout_94::run(&mut out); println!("RAN\tordlayout_94\t{}", out.checks - before); }
-    { let before = out.checks; gen::ordlayout_95::run(&mut out); println!("RAN\tordlayout_95\t{}", out.checks - before); }
-    { let before = out.checks; gen::ordlayout_96::run(&mut out); println!("RAN\tordlayout_96\t{}", out.checks - before); }
-    { let before = out.checks; gen::ordlayout_97::run(&mut out); println!("RAN\tordlayout_97\t{}", out.checks - before); }
-    { let before = out.checks; gen::ordlayout_98::run(&mut out); println!("RAN\tordlayout_98\t{}", out.checks - before); }
-    { let before = out.checks; gen::ordlayout_99::run(&mut out); println!("RAN\tordlayout_99\t{}", out.checks - before); }
-    { let before = out.checks; gen::ordlayout_100::run(&mut out); println!("RAN\tordlayout_100\t{}", out.checks - before); }
-    { let before = out.checks; gen::ordlayout_101::run(&mut out); println!("RAN\tordlayout_101\t{}", out.checks - before); }
-    { let before = out.checks; gen::ordlayout_102::run(&mut out); println!("RAN\tordlayout_102\t{}", out.checks - before); }
-    { let before = out.checks; gen::ordlayout_103::run(&mut out); println!("RAN\tordlayout_103\t{}", out.checks - before); }
-    { let before = out.checks; gen::ordlayout_104::run(&mut out); println!("RAN\tordlayout_104\t{}", out.checks - before); }
-    { let before = out.checks; gen::ordlayout_105::run(&mut out); println!("RAN\tordlayout_105\t{}", out.checks - before); }
-    { let before = out.checks; gen::ordlayout_106::run(&mut out); println!("RAN\tordlayout_106\t{}", out.checks - before); }
-    { let before = out.checks; gen::ordlayout_107::run(&mut out); println!("RAN\tordlayout_107\t{}", out.checks - before); }
-    { let before = out.checks; gen::ordlayout_108::run(&mut out); println!("RAN\tordlayout_108\t{}", out.checks - before); }
-    { let before = out.checks; gen::ordlayout_109::run(&mut out); println!("RAN\tordlayout_109\t{}", out.checks - before); }
-    { let before = out.checks; gen::ordlayout_110::run(&mut out); println!("RAN\tordlayout_110\t{}", out.checks - before); }
-    { let before = out.checks; gen::ordlayout_111::run(&mut out); println!("RAN\tordlayout_111\t{}", out.checks - before); }
-    { let before = out.checks; gen::ordlayout_112::run(&mut out); println!("RAN\tordlayout_112\t{}", out.checks - before); }
-    { let before = out.checks; gen::ordlayout_113::run(&mut out); println!("RAN\tordlayout_113\t{}", out.checks - before); }
-    { let before = out.checks; gen::ordlayout_114::run(&mut out); println!("RAN\tordlayout_114\t{}", out.checks - before); }
-    { let before = out.checks; gen::ordlayout_115::run(&mut out); println!("RAN\tordlayout_115\t{}", out.checks - before); }
-    { let before = out.checks; gen::ordlayout_116::run(&mut out); println!("RAN\tordlayout_116\t{}", out.checks - before); }
-    { let before = out.checks; gen::ordlayout_117::run(&mut out); println!("RAN\tordlayout_117\t{}", out.checks - before); }
-    { let before = out.checks; gen::ordlayout_118::run(&mut out); println!("RAN\tordlayout_118\t{}", out.checks - before); }
-    { let before = out.checks; gen::ordlayout_119::run(&mut out); println!("RAN\tordlayout_119\t{}", out.checks - before); }
-    { let before = out.checks; gen::ordlayout_120::run(&mut out); println!("RAN\tordlayout_120\t{}", out.checks - before); }
-    { let before = out.checks; gen::ordlayout_121::run(&mut out); println!("RAN\tordlayout_121\t{}", out.checks - before); }
-    { let before = out.checks; gen::ordlayout_122::run(&mut out); println!("RAN\tordlayout_122\t{}", out.checks - before); }
-    { let before = out.checks; gen::ordlayout_123::run(&mut out); println!("RAN\tordlayout_123\t{}", out.checks - before); }
-    { let before = out.checks; gen::ordlayout_124::run(&mut out); println!("RAN\tordlayout_124\t{}", out.checks - before); }
-    { let before = out.checks; gen::ordlayout_125::run(&mut out); println!("RAN\tordlayout_125\t{}", out.checks - before); }
-    { let before = out.checks; gen::ordlayout_126::run(&mut out); println!("RAN\tordlayout_126\t{}", out.checks - before); }
-    { let before = out.checks; gen::ordlayout_127::run(&mut out); println!("RAN\tordlayout_127\t{}", out.checks - before); }
-    { let before = out.checks; gen::ordlayout_128::run(&mut out); println!("RAN\tordlayout_128\t{}", out.checks - before); }
-    { let before = out.checks; gen::ordlayout_129::run(&mut out); println!("RAN\tordlayout_129\t{}", out.checks - before); }
-    { let before = out.checks; gen::ordlayout_130::run(&mut out); println!("RAN\tordlayout_130\t{}", out.checks - before); }
-    { let before = out.checks; gen::ordlayout_131::run(&mut out); println!("RAN\tordlayout_131\t{}", out.checks - before); }
-    { let before = out.checks; gen::ordlayout_132::run(&mut out); println!("RAN\tordlayout_132\t{}", out.checks - before); }
-    { let before = out.checks; gen::ordlayout_133::run(&mut out); println!("RAN\tordlayout_133\t{}", out.checks - before); }
-    { let before = out.checks; gen::ordlayout_134::run(&mut out); println!("RAN\tordlayout_134\t{}", out.checks - before); }
-    { let before = out.checks; gen::ordlayout_135::run(&mut out); println!("RAN\tordlayout_135\t{}", out.checks - before); }
-    { let before = out.checks; gen::ordlayout_136::run(&mut out); println!("RAN\tordlayout_136\t{}", out.checks - before); }
-    { let before = out.checks; gen::ordlayout_137::run(&mut out); println!("RAN\tordlayout_137\t{}", out.checks - before); }
-    { let before = out.checks; gen::ordlayout_138::run(&mut out); println!("RAN\tordlayout_138\t{}", out.checks - before); }
-    { let before = out.checks; gen::ordlayout_139::run(&mut out); println!("RAN\tordlayout_139\t{}", out.checks - before); }
-    { let before = out.checks; gen::ordlayout_140::run(&mut out); println!("RAN\tordlayout_140\t{}", out.checks - before); }
-    { let before = out.checks; gen::ordlayout_141::run(&mut out); println!("RAN\tordlayout_141\t{}", out.checks - before); }
-    { let before = out.checks; gen::ordlayout_142::run(&mut out); println!("RAN\tordlayout_142\t{}", out.checks - before); }
-    { let before = out.checks; gen::ordlayout_143::run(&mut out); println!("RAN\tordlayout_143\t{}", out.checks - before); }
-    { let before = out.checks; gen::ordlayout_144::run(&mut out); println!("RAN\tordlayout_144\t{}", out.checks - before); }
-    { let before = out.checks; gen::ordlayout_145::run(&mut out); println!("RAN\tordlayout_145\t{}", out.checks - before); }
-    { let before = out.checks; gen::ordlayout_146::run(&mut out); println!("RAN\tordlayout_146\t{}", out.checks - before); }
-    { let before = out.checks; gen::ordlayout_147::run(&mut out); println!("RAN\tordlayout_147\t{}", out.checks - before); }
-    { let before = out.checks; gen::ordlayout_148::run(&mut out); println!("RAN\tordlayout_148\t{}", out.checks - before); }
-    { let before = out.checks; gen::ordlayout_149::run(&mut out); println!("RAN\tordlayout_149\t{}", out.checks - before); }
-    { let before = out.checks; gen::debug_0::run(&mut out); println!("RAN\tdebug_0\t{}", out.checks - before); }
-    { let before = out.checks; gen::debug_1::run(&mut out); println!("RAN\tdebug_1\t{}", out.checks - before); }
-    { let before = out.checks; gen::debug_2::run(&mut out); println!("RAN\tdebug_2\t{}", out.checks - before); }
-    { let before = out.checks; gen::debug_3::run(&mut out); println!("RAN\tdebug_3\t{}", out.checks - before); }
-    { let before = out.checks; gen::debug_4::run(&mut out); println!("RAN\tdebug_4\t{}", out.checks - before); }
-    { let before = out.checks; gen::debug_5::run(&mut out); println!("RAN\tdebug_5\t{}", out.checks - before); }
-    { let before = out.checks; gen::debug_6::run(&mut out); println!("RAN\tdebug_6\t{}", out.checks - before); }
-    { let before = out.checks; gen::debug_7::run(&mut out); println!("RAN\tdebug_7\t{}", out.checks - before); }
-    { let before = out.checks; gen::debug_8::run(&mut out); println!("RAN\tdebug_8\t{}", out.checks - before); }
-    { let before = out.checks; gen::debug_9::run(&mut out); println!("RAN\tdebug_9\t{}", out.checks - before); }
-    { let before = out.checks; gen::debug_10::run(&mut out); println!("RAN\tdebug_10\t{}", out.checks - before); }
-    { let before = out.checks; gen::debug_11::run(&mut out); println!("RAN\tdebug_11\t{}", out.checks - before); }
-    { let before = out.checks; gen::debug_12::run(&mut out); println!("RAN\tdebug_12\t{}", out.checks - before); }
-    { let before = out.checks; gen::debug_13::run(&mut out); println!("RAN\tdebug_13\t{}", out.checks - before); }
-    { let before = out.checks; gen::debug_14::run(&mut out); println!("RAN\tdebug_14\t{}", out.checks - before); }
-    { let before = out.checks; gen::debug_15::run(&mut out); println!("RAN\tdebug_15\t{}", out.checks - before); }
-    { let before = out.checks; gen::debug_16::run(&mut out); println!("RAN\tdebug_16\t{}", out.checks - before); }
-    { let before = out.checks; gen::debug_17::run(&mut out); println!("RAN\tdebug_17\t{}", out.checks - before); }
-    { let before = out.checks; gen::debug_18::run(&mut out); println!("RAN\tdebug_18\t{}", out.checks - before); }
-    { let before = out.checks; gen::debug_19::run(&mut out); println!("RAN\tdebug_19\t{}", out.checks - before); }
-    { let before = out.checks; gen::debug_20::run(&mut out); println!("RAN\tdebug_20\t{}", out.checks - before); }
-    { let before = out.checks; gen::debug_21::run(&mut out); println!("RAN\tdebug_21\t{}", out.checks - before); }
-    { let before = out.checks; gen::debug_22::run(&mut out); println!("RAN\tdebug_22\t{}", out.checks - before); }
-    { let before = out.checks; gen::debug_23::run(&mut out); println!("RAN\tdebug_23\t{}", out.checks - before); }
-    { let before = out.checks; gen::debug_24::run(&mut out); println!("RAN\tdebug_24\t{}", out.checks - before); }
-    { let before = out.checks; gen::debug_25::run(&mut out); println!("RAN\tdebug_25\t{}", out.checks - before); }
-    { let before = out.checks; gen::debug_26::run(&mut out); println!("RAN\tdebug_26\t{}", out.checks - before); }
-    { let before = out.checks; gen::debug_27::run(&mut out); println!("RAN\tdebug_27\t{}", out.checks - before); }
-    { let before = out.checks; gen::debug_28::run(&mut out); println!("RAN\tdebug_28\t{}", out.checks - before); }
-    { let before = out.checks; gen::debug_29::run(&mut out); println!("RAN\tdebug_29\t{}", out.checks - before); }
-    { let before = out.checks; gen::debug_30::run(&mut out); println!("RAN\tdebug_30\t{}", out.checks - before); }
-    { let before = out.checks; gen::debug_31::run(&mut out); println!("RAN\tdebug_31\t{}", out.checks - before); }
-    { let before = out.checks; gen::debug_32::run(&mut out); println!("RAN\tdebug_32\t{}", out.checks - before); }
-    { let before = out.checks; gen::debug_33::run(&mut out); println!("RAN\tdebug_33\t{}", out.checks - before); }
-    { let before = out.checks; gen::debug_34::run(&mut out); println!("RAN\tdebug_34\t{}", out.checks - before); }
-    { let before = out.checks; gen::debug_35::run(&mut out); println!("RAN\tdebug_35\t{}", out.checks - before); }
-    { let before = out.checks; gen::debug_36::run(&mut out); println!("RAN\tdebug_36\t{}", out.checks - before); }
-    { let before = out.checks; gen::debug_37::run(&mut out); println!("RAN\tdebug_37\t{}", out.checks - before); }
-    { let before = out.checks; gen::debug_38::run(&mut out); println!("RAN\tdebug_38\t{}", out.checks - before); }
-    { let before = out.checks; gen::debug_39::run(&mut out); println!("RAN\tdebug_39\t{}", out.checks - before); }
-    { let before = out.checks; gen::debug_40::run(&mut out); println!("RAN\tdebug_40\t{}", out.checks - before); }
-    { let before = out.checks; gen::debug_41::run(&mut out); println!("RAN\tdebug_41\t{}", out.checks - before); }
-    { let before = out.checks; gen::debug_42::run(&mut out); println!("RAN\tdebug_42\t{}", out.checks - before); }
-    { let before = out.checks; gen::debug_43::run(&mut out); println!("RAN\tdebug_43\t{}", out.checks - before); }
-    { let before = out.checks; gen::debug_44::run(&mut out); println!("RAN\tdebug_44\t{}", out.checks - before); }
-    { let before = out.checks; gen::debug_45::run(&mut out); println!("RAN\tdebug_45\t{}", out.checks - before); }
-    { let before = out.checks; gen::debug_46::run(&mut out); println!("RAN\tdebug_46\t{}", out.checks - before); }
-    { let before = out.checks; gen::debug_47::run(&mut out); println!("RAN\tdebug_47\t{}", out.checks - before); }
-    { let before = out.checks; gen::debug_48::run(&mut out); println!("RAN\tdebug_48\t{}", out.checks - before); }
-    { let before = out.checks; gen::debug_49::run(&mut out); println!("RAN\tdebug_49\t{}", out.checks - before); }
-    { let before = out.checks; gen::debug_50::run(&mut out); println!("RAN\tdebug_50\t{}", out.checks - before); }
-    { let before = out.checks; gen::debug_51::run(&mut out); println!("RAN\tdebug_51\t{}", out.checks - before); }
-    { let before = out.checks; gen::debug_52::run(&mut out); println!("RAN\tdebug_52\t{}", out.checks - before); }
-    { let before = out.checks; gen::debug_53::run(&mut out); println!("RAN\tdebug_53\t{}", out.checks - before); }
-    { let before = out.checks; gen::debug_54::run(&mut out); println!("RAN\tdebug_54\t{}", out.checks - before); }
-    { let before = out.checks; gen::debug_55::run(&mut out); println!("RAN\tdebug_55\t{}", out.checks - before); }
-    { let before = out.checks; gen::debug_56::run(&mut out); println!("RAN\tdebug_56\t{}", out.checks - before); }
-    { let before = out.checks; gen::debug_57::run(&mut out); println!("RAN\tdebug_57\t{}", out.checks - before); }
-    { let before = out.checks; gen::debug_58::run(&mut out); println!("RAN\tdebug_58\t{}", out.checks - before); }
-    { let before = out.checks; gen::debug_59::run(&mut out); println!("RAN\tdebug_59\t{}", out.checks - before); }
-    { let before = out.checks; gen::debug_60::run(&mut out); println!("RAN\tdebug_60\t{}", out.checks - before); }
-    { let before = out.checks; gen::debug_61::run(&mut out); println!("RAN\tdebug_61\t{}", out.checks - before); }
-    { let before = out.checks; gen::debug_62::run(&mut out); println!("RAN\tdebug_62\t{}", out.checks - before); }
-    { let before = out.checks; gen::debug_63::run(&mut out); println!("RAN\tdebug_63\t{}", out.checks - before); }
-    { let before = out.checks; gen::debug_64::run(&mut out); println!("RAN\tdebug_64\t{}", out.checks - before); }
-    { let before = out.checks; gen::debug_65::run(&mut out); println!("RAN\tdebug_65\t{}", out.checks - before); }
-    { let before = out.checks; gen::debug_66::run(&mut out); println!("RAN\tdebug_66\t{}", out.checks - before); }
-    { let before = out.checks; gen::debug_67::run(&mut out); println!("RAN\tdebug_67\t{}", out.checks - before); }
-    { let before = out.checks; gen::debug_68::run(&mut out); println!("RAN\tdebug_68\t{}", out.checks - before); }
-    { let before = out.checks; gen::debug_69::run(&mut out); println!("RAN\tdebug_69\t{}", out.checks - before); }
-    { let before = out.checks; gen::debug_70::run(&mut out); println!("RAN\tdebug_70\t{}", out.checks - before); }
-    { let before = out.checks; gen::debug_71::run(&mut out); println!("RAN\tdebug_71\t{}", out.checks - before); }
-    { let before = out.checks; gen::debug_72::run(&mut out); println!("RAN\tdebug_72\t{}", out.checks - before); }
-    { let before = out.checks; gen::debug_73::run(&mut out); println!("RAN\tdebug_73\t{}", out.checks - before); }
-    { let before = out.checks; gen::debug_74::run(&mut out); println!("RAN\tdebug_74\t{}", out.checks - before); }
-    { let before = out.checks; gen::debug_75::run(&mut out); println!("RAN\tdebug_75\t{}", out.checks - before); }
-    { let before = out.checks; gen::debug_76::run(&mut out); println!("RAN\tdebug_76\t{}", out.checks - before); }
-    { let before = out.checks; gen::debug_77::run(&mut out); println!("RAN\tdebug_77\t{}", out.checks - before); }
-    { let before = out.checks; gen::debug_78::run(&mut out); println!("RAN\tdebug_78\t{}", out.checks - before); }
-    { let before = out.checks; gen::debug_79::run(&mut out); println!("RAN\tdebug_79\t{}", out.checks - before); }
-    { let before = out.checks; gen::debug_80::run(&mut out); println!("RAN\tdebug_80\t{}", out.checks - before); }
-    { let before = out.checks; gen::debug_81::run(&mut out); println!("RAN\tdebug_81\t{}", out.checks - before); }
-    { let before = out.checks; gen::debug_82::run(&mut out); println!("RAN\tdebug_82\t{}", out.checks - before); }
-    { let before = out.checks; gen::debug_83::run(&mut out); println!("RAN\tdebug_83\t{}", out.checks - before); }
-    { let before = out.checks; gen::debug_84::run(&mut out); println!("RAN\tdebug_84\t{}", out.checks - before); }
-    { let before = out.checks; gen::debug_85::run(&mut out); println!("RAN\tdebug_85\t{}", out.checks - before); }
-    { let before = out.checks; gen::debug_86::run(&mut out); println!("RAN\tdebug_86\t{}", out.checks - before); }
-    { let before = out.checks; gen::debug_87::run(&mut out); println!("RAN\tdebug_87\t{}", out.checks - before); }
-    { let before = out.checks; gen::debug_88::run(&mut out); println!("RAN\tdebug_88\t{}", out.checks - before); }
-    { let before = out.checks; gen::debug_89::run(&mut out); println!("RAN\tdebug_89\t{}", out.checks - before); }
-    { let before = out.checks; gen::debug_90::run(&mut out); println!("RAN\tdebug_90\t{}", out.checks - before); }
-    { let before = out.checks; gen::debug_91::run(&mut out); println!("RAN\tdebug_91\t{}", out.checks - before); }
-    { let before = out.checks; gen::debug_92::run(&mut out); println!("RAN\tdebug_92\t{}", out.checks - before); }
-    { let before = out.checks; gen::debug_93::run(&mut out); println!("RAN\tdebug_93\t{}", out.checks - before); }
-    { let before = out.checks; gen::debug_94::run(&mut out); println!("RAN\tdebug_94\t{}", out.checks - before); }
-    { let before = out.checks; gen::debug_95::run(&mut out); println!("RAN\tdebug_95\t{}", out.checks - before); }
-    { let before = out.checks; gen::debug_96::run(&mut out); println!("RAN\tdebug_96\t{}", out.checks - before); }
-    { let before = out.checks; gen::debug_97::run(&mut out); println!("RAN\tdebug_97\t{}", out.checks - before); }
-    { let before = out.checks; gen::debug_98::run(&mut out); println!("RAN\tdebug_98\t{}", out.checks - before); }
-    { let before = out.checks; gen::debug_99::run(&mut out); println!("RAN\tdebug_99\t{}", out.checks - before); }
-    { let before = out.checks; gen::debug_100::run(&mut out); println!("RAN\tdebug_100\t{}", out.checks - before); }
-    { let before = out.checks; gen::debug_101::run(&mut out); println!("RAN\tdebug_101\t{}", out.checks - before); }
-    { let before = out.checks; gen::debug_102::run(&mut out); println!("RAN\tdebug_102\t{}", out.checks - before); }
-    { let before = out.checks; gen::debug_103::run(&mut out); println!("RAN\tdebug_103\t{}", out.checks - before); }
-    { let before = out.checks; gen::debug_104::run(&mut out); println!("RAN\tdebug_104\t{}", out.checks - before); }
-    { let before = out.checks; gen::debug_105::run(&mut out); println!("RAN\tdebug_105\t{}", out.checks - before); }
-    { let before = out.checks; gen::debug_106::run(&mut out); println!("RAN\tdebug_106\t{}", out.checks - before); }
-    { let before = out.checks; gen::debug_107::run(&mut out); println!("RAN\tdebug_107\t{}", out.checks - before); }
-    { let before = out.checks; gen::debug_108::run(&mut out); println!("RAN\tdebug_108\t{}", out.checks - before); }
-    { let before = out.checks; gen::debug_109::run(&mut out); println!("RAN\tdebug_109\t{}", out.checks - before); }
-    { let before = out.checks; gen::debug_110::run(&mut out); println!("RAN\tdebug_110\t{}", out.checks - before); }
-    { let before = out.checks; gen::debug_111::run(&mut out); println!("RAN\tdebug_111\t{}", out.checks - before); }
-    { let before = out.checks; gen::debug_112::run(&mut out); println!("RAN\tdebug_112\t{}", out.checks - before); }
-    { let before = out.checks; gen::debug_113::run(&mut out); println!("RAN\tdebug_113\t{}", out.checks - before); }
-    { let before = out.checks; gen::debug_114::run(&mut out); println!("RAN\tdebug_114\t{}", out.checks - before); }
-    { let before = out.checks; gen::debug_115::run(&mut out); println!("RAN\tdebug_115\t{}", out.checks - before); }
-    { let before = out.checks; gen::debug_116::run(&mut out); println!("RAN\tdebug_116\t{}", out.checks - before); }
-    { let before = out.checks; gen::debug_117::run(&mut out); println!("RAN\tdebug_117\t{}", out.checks - before); }
-    { let before = out.checks; gen::debug_118::run(&mut out); println!("RAN\tdebug_118\t{}", out.checks - before); }
-    { let before = out.checks; gen::debug_119::run(&mut out); println!("RAN\tdebug_119\t{}", out.checks - before); }
-    { let before = out.checks; gen::debug_120::run(&mut out); println!("RAN\tdebug_120\t{}", out.checks - before); }
-    { let before = out.checks; gen::debug_121::run(&mut out); println!("RAN\tdebug_121\t{}", out.checks - before); }
-    { let before = out.checks; gen::debug_122::run(&mut out); println!("RAN\tdebug_122\t{}", out.checks - before); }
-    { let before = out.checks; gen::debug_123::run(&mut out); println!("RAN\tdebug_123\t{}", out.checks - before); }
-    { let before = out.checks; gen::debug_124::run(&mut out); println!("RAN\tdebug_124\t{}", out.checks - before); }
-    { let before = out.checks; gen::debug_125::run(&mut out); println!("RAN\tdebug_125\t{}", out.checks - before); }
-    { let before = out.checks; gen::debug_126::run(&mut out); println!("RAN\tdebug_126\t{}", out.checks - before); }
-    { let before = out.checks; gen::debug_127::run(&mut out); println!("RAN\tdebug_127\t{}", out.checks - before); }
-    { let before = out.checks; gen::debug_128::run(&mut out); println!("RAN\tdebug_128\t{}", out.checks - before); }
-    { let before = out.checks; gen::debug_129::run(&mut out); println!("RAN\tdebug_129\t{}", out.checks - before); }
-    { let before = out.checks; gen::debug_130::run(&mut out); println!("RAN\tdebug_130\t{}", out.checks - before); }
-    { let before = out.checks; gen::debug_131::run(&mut out); println!("RAN\tdebug_131\t{}", out.checks - before); }
-    { let before = out.checks; gen::debug_132::run(&mut out); println!("RAN\tdebug_132\t{}", out.checks - before); }
-    { let before = out.checks; gen::debug_133::run(&mut out); println!("RAN\tdebug_133\t{}", out.checks - before); }
-    { let before = out.checks; gen::debug_134::run(&mut out); println!("RAN\tdebug_134\t{}", out.checks - before); }
-    { let before = out.checks; gen::debug_135::run(&mut out); println!("RAN\tdebug_135\t{}", out.checks - before); }
-    { let before = out.checks; gen::debug_136::run(&mut out); println!("RAN\tdebug_136\t{}", out.checks - before); }
-    { let before = out.checks; gen::debug_137::run(&mut out); println!("RAN\tdebug_137\t{}", out.checks - before); }
-    { let before = out.checks; gen::debug_138::run(&mut out); println!("RAN\tdebug_138\t{}", out.checks - before); }
-    { let before = out.checks; gen::debug_139::run(&mut out); println!("RAN\tdebug_139\t{}", out.checks - before); }
-    { let before = out.checks; gen::debug_140::run(&mut out); println!("RAN\tdebug_140\t{}", out.checks - before); }
-    { let before = out.checks; gen::debug_141::run(&mut out); println!("RAN\tdebug_141\t{}", out.checks - before); }
-    { let before = out.checks; gen::debug_142::run(&mut out); println!("RAN\tdebug_142\t{}", out.checks - before); }
-    { let before = out.checks; gen::debug_143::run(&mut out); println!("RAN\tdebug_143\t{}", out.checks - before); }
-    { let before = out.checks; gen::debug_144::run(&mut out); println!("RAN\tdebug_144\t{}", out.checks - before); }
-    { let before = out.checks; gen::debug_145::run(&mut out); println!("RAN\tdebug_145\t{}", out.checks - before); }
-    { let before = out.checks; gen::debug_146::run(&mut out); println!("RAN\tdebug_146\t{}", out.checks - before); }
-    { let before = out.checks; gen::debug_147::run(&mut out); println!("RAN\tdebug_147\t{}", out.checks - before); }
-    { let before = out.checks; gen::debug_148::run(&mut out); println!("RAN\tdebug_148\t{}", out.checks - before); }
-    { let before = out.checks; gen::debug_149::run(&mut out); println!("RAN\tdebug_149\t{}", out.checks - before); }
-    { let before = out.checks; gen::clone_0::run(&mut out); println!("RAN\tclone_0\t{}", out.checks - before); }
-    { let before = out.checks; gen::clone_1::run(&mut out); println!("RAN\tclone_1\t{}", out.checks - before); }
-    { let before = out.checks; gen::clone_2::run(&mut out); println!("RAN\tclone_2\t{}", out.checks - before); }
-    { let before = out.checks; gen::clone_3::run(&mut out); println!("RAN\tclone_3\t{}", out.checks - before); }
-    { let before = out.checks; gen::clone_4::run(&mut out); println!("RAN\tclone_4\t{}", out.checks - before); }
-    { let before = out.checks; gen::clone_5::run(&mut out); println!("RAN\tclone_5\t{}", out.checks - before); }
-    { let before = out.checks; gen::clone_6::run(&mut out); println!("RAN\tclone_6\t{}", out.checks - before); }
-    { let before = out.checks; gen::clone_7::run(&mut out); println!("RAN\tclone_7\t{}", out.checks - before); }
-    { let before = out.checks; gen::clone_8::run(&mut out); println!("RAN\tclone_8\t{}", out.checks - before); }
-    { let before = out.checks; gen::clone_9::run(&mut out); println!("RAN\tclone_9\t{}", out.checks - before); }
-    { let before = out.checks; gen::clone_10::run(&mut out); println!("RAN\tclone_10\t{}", out.checks - before); }
-    { let before = out.checks; gen::clone_11::run(&mut out); println!("RAN\tclone_11\t{}", out.checks - before); }
-    { let before = out.checks; gen::clone_12::run(&mut out); println!("RAN\tclone_12\t{}", out.checks - before); }
-    { let before = out.checks; gen::clone_13::run(&mut out); println!("RAN\tclone_13\t{}", out.checks - before); }
-    { let before = out.checks; gen::clone_14::run(&mut out); println!("RAN\tclone_14\t{}", out.checks - before); }
-    { let before = out.checks; gen::clone_15::run(&mut out); println!("RAN\tclone_15\t{}", out.checks - before); }
-    { let before = out.checks; gen::clone_16::run(&mut out); println!("RAN\tclone_16\t{}", out.checks - before); }
-    { let before = out.checks; gen::clone_17::run(&mut out); println!("RAN\tclone_17\t{}", out.checks - before); }
-    { let before = out.checks; gen::clone_18::run(&mut out); println!("RAN\tclone_18\t{}", out.checks - before); }
-    { let before = out.checks; gen::clone_19::run(&mut out); println!("RAN\tclone_19\t{}", out.checks - before); }
-    { let before = out.checks; gen::clone_20::run(&mut out); println!("RAN\tclone_20\t{}", out.checks - before); }
-    { let before = out.checks; gen::clone_21::run(&mut out); println!("RAN\tclone_21\t{}", out.checks - before); }
-    { let before = out.checks; gen::clone_22::run(&mut out); println!("RAN\tclone_22\t{}", out.checks - before); }
-    { let before = out.checks; gen::clone_23::run(&mut out); println!("RAN\tclone_23\t{}", out.checks - before); }
-    { let before = out.checks; gen::clone_24::run(&mut out); println!("RAN\tclone_24\t{}", out.checks - before); }
-    { let before = out.checks; gen::clone_25::run(&mut out); println!("RAN\tclone_25\t{}", out.checks - before); }
-    { let before = out.checks; gen::clone_26::run(&mut out); println!("RAN\tclone_26\t{}", out.checks - before); }
-    { let before = out.checks; gen::clone_27::run(&mut out); println!("RAN\tclone_27\t{}", out.checks - before); }
-    { let before = out.checks; gen::clone_28::run(&mut out); println!("RAN\tclone_28\t{}", out.checks - before); }
-    { let before = out.checks; gen::clone_29::run(&mut out); println!("RAN\tclone_29\t{}", out.checks - before); }
-    { let before = out.checks; gen::clone_30::run(&mut out); println!("RAN\tclone_30\t{}", out.checks - before); }
-    { let before = out.checks; gen::clone_31::run(&mut out); println!("RAN\tclone_31\t{}", out.checks - before); }
-    { let before = out.checks; gen::clone_32::run(&mut out); println!("RAN\tclone_32\t{}", out.checks - before); }
-    { let before = out.checks; gen::clone_33::run(&mut out); println!("RAN\tclone_33\t{}", out.checks - before); }
-    { let before = out.checks; gen::clone_34::run(&mut out); println!("RAN\tclone_34\t{}", out.checks - before); }
-    { let before = out.checks; gen::clone_35::run(&mut out); println!("RAN\tclone_35\t{}", out.checks - before); }
-    { let before = out.checks; gen::clone_36::run(&mut out); println!("RAN\tclone_36\t{}", out.checks - before); }
-    { let before = out.checks; gen::clone_37::run(&mut out); println!("RAN\tclone_37\t{}", out.checks - before); }
-    { let before = out.checks; gen::clone_38::run(&mut out); println!("RAN\tclone_38\t{}", out.checks - before); }
-    { let before = out.checks; gen::clone_39::run(&mut out); println!("RAN\tclone_39\t{}", out.checks - before); }
-    { let before = out.checks; gen::clone_40::run(&mut out); println!("RAN\tclone_40\t{}", out.checks - before); }
-    { let before = out.checks; gen::clone_41::run(&mut out); println!("RAN\tclone_41\t{}", out.checks - before); }
-    { let before = out.checks; gen::clone_42::run(&mut out); println!("RAN\tclone_42\t{}", out.checks - before); }
-    { let before = out.checks; gen::clone_43::run(&mut out); println!("RAN\tclone_43\t{}", out.checks - before); }
-    { let before = out.checks; gen::clone_44::run(&mut out); println!("RAN\tclone_44\t{}", out.checks - before); }
-    { let before = out.checks; gen::clone_45::run(&mut out); println!("RAN\tclone_45\t{}", out.checks - before); }
-    { let before = out.checks; gen::clone_46::run(&mut out); println!("RAN\tclone_46\t{}", out.checks - before); }
-    { let before = out.checks; gen::clone_47::run(&mut out); println!("RAN\tclone_47\t{}", out.checks - before); }
-    { let before = out.checks; gen::clone_48::run(&mut out); println!("RAN\tclone_48\t{}", out.checks - before); }
-    { let before = out.checks; gen::clone_49::run(&mut out); println!("RAN\tclone_49\t{}", out.checks - before); }
-    { let before = out.checks; gen::clone_50::run(&mut out); println!("RAN\tclone_50\t{}", out.checks - before); }
-    { let before = out.checks; gen::clone_51::run(&mut out); println!("RAN\tclone_51\t{}", out.checks - before); }
-    { let before = out.checks; gen::clone_52::run(&mut out); println!("RAN\tclone_52\t{}", out.checks - before); }
-    { let before = out.checks; gen::clone_53::run(&mut out); println!("RAN\tclone_53\t{}", out.checks - before); }
-    { let before = out.checks; gen::clone_54::run(&mut out); println!("RAN\tclone_54\t{}", out.checks - before); }
-    { let before = out.checks; gen::clone_55::run(&mut out); println!("RAN\tclone_55\t{}", out.checks - before); }
-    { let before = out.checks; gen::clone_56::run(&mut out); println!("RAN\tclone_56\t{}", out.checks - before); }
-    { let before = out.checks; gen::clone_57::run(&mut out); println!("RAN\tclone_57\t{}", out.checks - before); }
-    { let before = out.checks; gen::clone_58::run(&mut out); println!("RAN\tclone_58\t{}", out.checks - before); }
-    { let before = out.checks; gen::clone_59::run(&mut out); println!("RAN\tclone_59\t{}", out.checks - before); }
-    { let before = out.checks; gen::clone_60::run(&mut out); println!("RAN\tclone_60\t{}", out.checks - before); }
-    { let before = out.checks; gen::clone_61::run(&mut out); println!("RAN\tclone_61\t{}", out.checks - before); }
-    { let before = out.checks; gen::clone_62::run(&mut out); println!("RAN\tclone_62\t{}", out.checks - before); }
-    { let before = out.checks; gen::clone_63::run(&mut out); println!("RAN\tclone_63\t{}", out.checks - before); }
-    { let before = out.checks; gen::clone_64::run(&mut out); println!("RAN\tclone_64\t{}", out.checks - before); }
-    { let before = out.checks; gen::clone_65::run(&mut out); println!("RAN\tclone_65\t{}", out.checks - before); }
-    { let before = out.checks; gen::clone_66::run(&mut out); println!("RAN\tclone_66\t{}", out.checks - before); }
-    { let before = out.checks; gen::clone_67::run(&mut out); println!("RAN\tclone_67\t{}", out.checks - before); }
-    { let before = out.checks; gen::clone_68::run(&mut out); println!("RAN\tclone_68\t{}", out.checks - before); }
-    { let before = out.checks; gen::clone_69::run(&mut out); println!("RAN\tclone_69\t{}", out.checks - before); }
-    { let before = out.checks; gen::clone_70::run(&mut out); println!("RAN\tclone_70\t{}", out.checks - before); }
-    { let before = out.checks; gen::clone_71::run(&mut out); println!("RAN\tclone_71\t{}", out.checks - before); }
-    { let before = out.checks; gen::clone_72::run(&mut out); println!("RAN\tclone_72\t{}", out.checks - before); }
-    { let before = out.checks; gen::clone_73::run(&mut out); println!("RAN\tclone_73\t{}", out.checks - before); }
-    { let before = out.checks; gen::clone_74::run(&mut out); println!("RAN\tclone_74\t{}", out.checks - before); }
-    { let before = out.checks; gen::clone_75::run(&mut out); println!("RAN\tclone_75\t{}", out.checks - before); }
-    { let before = out.checks; gen::clone_76::run(&mut out); println!("RAN\tclone_76\t{}", out.checks - before); }
-    { let before = out.checks; gen::clone_77::run(&mut out); println!("RAN\tclone_77\t{}", out.checks - before); }
-    { let before = out.checks; gen::clone_78::run(&mut out); println!("RAN\tclone_78\t{}", out.checks - before); }
-    { let before = out.checks; gen::clone_79::run(&mut out); println!("RAN\tclone_79\t{}", out.checks - before); }
-    { let before = out.checks; gen::clone_80::run(&mut out); println!("RAN\tclone_80\t{}", out.checks - before); }
-    { let before = out.checks; gen::clone_81::run(&mut out); println!("RAN\tclone_81\t{}", out.checks - before); }
-    { let before = out.checks; gen::clone_82::run(&mut out); println!("RAN\tclone_82\t{}", out.checks - before); }
-    { let before = out.checks; gen::clone_83::run(&mut out); println!("RAN\tclone_83\t{}", out.checks - before); }
-    { let before = out.checks; gen::clone_84::run(&mut out); println!("RAN\tclone_84\t{}", out.checks - before); }
-    { let before = out.checks; gen::clone_85::run(&mut out); println!("RAN\tclone_85\t{}", out.checks - before); }
-    { let before = out.checks; gen::clone_86::run(&mut out); println!("RAN\tclone_86\t{}", out.checks - before); }
-    { let before = out.checks; gen::clone_87::run(&mut out); println!("RAN\tclone_87\t{}", out.checks - before); }
-    { let before = out.checks; gen::clone_88::run(&mut out); println!("RAN\tclone_88\t{}", out.checks - before); }
-    { let before = out.checks; gen::clone_89::run(&mut out); println!("RAN\tclone_89\t{}", out.checks - before); }
-    { let before = out.checks; gen::clone_90::run(&mut out); println!("RAN\tclone_90\t{}", out.checks - before); }
-    { let before = out.checks; gen::clone_91::run(&mut out); println!("RAN\tclone_91\t{}", out.checks - before); }
-    { let before = out.checks; gen::clone_92::run(&mut out); println!("RAN\tclone_92\t{}", out.checks - before); }
-    { let before = out.checks; gen::clone_93::run(&mut out); println!("RAN\tclone_93\t{}", out.checks - before); }
-    { let before = out.checks; gen::clone_94::run(&mut out); println!("RAN\tclone_94\t{}", out.checks - before); }
-    { let before = out.checks; gen::clone_95::run(&mut out); println!("RAN\tclone_95\t{}", out.checks - before); }
-    { let before = out.checks; gen::clone_96::run(&mut out); println!("RAN\tclone_96\t{}", out.checks - before); }
-    { let before = out.checks; gen::clone_97::run(&mut out); println!("RAN\tclone_97\t{}", out.checks - before); }
-    { let before = out.checks; gen::clone_98::run(&mut out); println!("RAN\tclone_98\t{}", out.checks - before); }
-    { let before = out.checks; gen::clone_99::run(&mut out); println!("RAN\tclone_99\t{}", out.checks - before); }
-    { let before = out.checks; gen::clone_100::run(&mut out); println!("RAN\tclone_100\t{}", out.checks - before); }
-    { let before = out.checks; gen::clone_101::run(&mut out); println!("RAN\tclone_101\t{}", out.checks - before); }
-    { let before = out.checks; gen::clone_102::run(&mut out); println!("RAN\tclone_102\t{}", out.checks - before); }
-    { let before = out.checks; gen::clone_103::run(&mut out); println!("RAN\tclone_103\t{}", out.checks - before); }
-    { let before = out.checks; gen::clone_104::run(&mut out); println!("RAN\tclone_104\t{}", out.checks - before); }
-    { let before = out.checks; gen::clone_105::run(&mut out); println!("RAN\tclone_105\t{}", out.checks - before); }
-    { let before = out.checks; gen::clone_106::run(&mut out); println!("RAN\tclone_106\t{}", out.checks - before); }
-    { let before = out.checks; gen::clone_107::run(&mut out); println!("RAN\tclone_107\t{}", out.checks - before); }
-    { let before = out.checks; gen::clone_108::run(&mut out); println!("RAN\tclone_108\t{}", out.checks - before); }
-    { let before = out.checks; gen::clone_109::run(&mut out); println!("RAN\tclone_109\t{}", out.checks - before); }
-    { let before = out.checks; gen::clone_110::run(&mut out); println!("RAN\tclone_110\t{}", out.checks - before); }
-    { let before = out.checks; gen::clone_111::run(&mut out); println!("RAN\tclone_111\t{}", out.checks - before); }
-    { let before = out.checks; gen::clone_112::run(&mut out); println!("RAN\tclone_112\t{}", out.checks - before); }
-    { let before = out.checks; gen::clone_113::run(&mut out); println!("RAN\tclone_113\t{}", out.checks - before); }
-    { let before = out.checks; gen::clone_114::run(&mut out); println!("RAN\tclone_114\t{}", out.checks - before); }
-    { let before = out.checks; gen::clone_115::run(&mut out); println!("RAN\tclone_115\t{}", out.checks - before); }
-    { let before = out.checks; gen::clone_116::run(&mut out); println!("RAN\tclone_116\t{}", out.checks - before); }
-    { let before = out.checks; gen::clone_117::run(&mut out); println!("RAN\tclone_117\t{}", out.checks - before); }
-    { let before = out.checks; gen::clone_118::run(&mut out); println!("RAN\tclone_118\t{}", out.checks - before); }
-    { let before = out.checks; gen::clone_119::run(&mut out); println!("RAN\tclone_119\t{}", out.checks - before); }
-    { let before = out.checks; gen::clone_120::run(&mut out); println!("RAN\tclone_120\t{}", out.checks - before); }
-    { let before = out.checks; gen::clone_121::run(&mut out); println!("RAN\tclone_121\t{}", out.checks - before); }
-    { let before = out.checks; gen::clone_122::run(&mut out); println!("RAN\tclone_122\t{}", out.checks - before); }
-    { let before = out.checks; gen::clone_123::run(&mut out); println!("RAN\tclone_123\t{}", out.checks - before); }
-    { let before = out.checks; gen::clone_124::run(&mut out); println!("RAN\tclone_124\t{}", out.checks - before); }
-    { let before = out.checks; gen::clone_125::run(&mut out); println!("RAN\tclone_125\t{}", out.checks - before); }
-    { let before = out.checks; gen::clone_126::run(&mut out); println!("RAN\tclone_126\t{}", out.checks - before); }
-    { let before = out.checks; gen::clone_127::run(&mut out); println!("RAN\tclone_127\t{}", out.checks - before); }
-    { let before = out.checks; gen::clone_128::run(&mut out); println!("RAN\tclone_128\t{}", out.checks - before); }
-    { let before = out.checks; gen::clone_129::run(&mut out); println!("RAN\tclone_129\t{}", out.checks - before); }
-    { let before = out.checks; gen::clone_130::run(&mut out); println!("RAN\tclone_130\t{}", out.checks - before); }
-    { let before = out.checks; gen::clone_131::run(&mut out); println!("RAN\tclone_131\t{}", out.checks - before); }
-    { let before = out.checks; gen::clone_132::run(&mut out); println!("RAN\tclone_132\t{}", out.checks - before); }
-    { let before = out.checks; gen::clone_133::run(&mut out); println!("RAN\tclone_133\t{}", out.checks - before); }
-    { let before = out.checks; gen::clone_134::run(&mut out); println!("RAN\tclone_134\t{}", out.checks - before); }
-    { let before = out.checks; gen::clone_135::run(&mut out); println!("RAN\tclone_135\t{}", out.checks - before); }
-    { let before = out.checks; gen::clone_136::run(&mut out); println!("RAN\tclone_136\t{}", out.checks - before); }
-    { let before = out.checks; gen::clone_137::run(&mut out); println!("RAN\tclone_137\t{}", out.checks - before); }
-    { let before = out.checks; gen::clone_138::run(&mut out); println!("RAN\tclone_138\t{}", out.checks - before); }
-    { let before = out.checks; gen::clone_139::run(&mut out); println!("RAN\tclone_139\t{}", out.checks - before); }
-    { let before = out.checks; gen::clone_140::run(&mut out); println!("RAN\tclone_140\t{}", out.checks - before); }
-    { let before = out.checks; gen::clone_141::run(&mut out); println!("RAN\tclone_141\t{}", out.checks - before); }
-    { let before = out.checks; gen::clone_142::run(&mut out); println!("RAN\tclone_142\t{}", out.checks - before); }
-    { let before = out.checks; gen::clone_143::run(&mut out); println!("RAN\tclone_143\t{}", out.checks - before); }
-    { let before = out.checks; gen::clone_144::run(&mut out); println!("RAN\tclone_144\t{}", out.checks - before); }
-    { let before = out.checks; gen::clone_145::run(&mut out); println!("RAN\tclone_145\t{}", out.checks - before); }
-    { let before = out.checks; gen::clone_146::run(&mut out); println!("RAN\tclone_146\t{}", out.checks - before); }
-    { let before = out.checks; gen::clone_147::run(&mut out); println!("RAN\tclone_147\t{}", out.checks - before); }
-    { let before = out.checks; gen::clone_148::run(&mut out); println!("RAN\tclone_148\t{}", out.checks - before); }
-    { let before = out.checks; gen::clone_149::run(&mut out); println!("RAN\tclone_149\t{}", out.checks - before); }
-    { let before = out.checks; gen::default_0::run(&mut out); println!("RAN\tdefault_0\t{}", out.checks - before); }
-    { let before = out.checks; gen::default_1::run(&mut out); println!("RAN\tdefault_1\t{}", out.checks - before); }
-    { let before = out.checks; gen::default_2::run(&mut out); println!("RAN\tdefault_2\t{}", out.checks - before); }
-    { let before = out.checks; gen::default_3::run(&mut out); println!("RAN\tdefault_3\t{}", out.checks - before); }
-    { let before = out.checks; gen::default_4::run(&mut out); println!("RAN\tdefault_4\t{}", out.checks - before); }
-    { let before = out.checks; gen::default_5::run(&mut out); println!("RAN\tdefault_5\t{}", out.checks - before); }
-    { let before = out.checks; gen::default_6::run(&mut out); println!("RAN\tdefault_6\t{}", out.checks - before); }
-    { let before = out.checks; gen::default_7::run(&mut out); println!("RAN\tdefault_7\t{}", out.checks - before); }
-    { let before = out.checks; gen::default_8::run(&mut out); println!("RAN\tdefault_8\t{}", out.checks - before); }
-    { let before = out.checks; gen::default_9::run(&mut out); println!("RAN\tdefault_9\t{}", out.checks - before); }
-    { let before = out.checks; gen::default_10::run(&mut out); println!("RAN\tdefault_10\t{}", out.checks - before); }
-    { let before = out.checks; gen::default_11::run(&mut out); println!("RAN\tdefault_11\t{}", out.checks - before); }
-    { let before = out.checks; gen::default_12::run(&mut out); println!("RAN\tdefault_12\t{}", out.checks - before); }
-    { let before = out.checks; gen::default_13::run(&mut out); println!("RAN\tdefault_13\t{}", out.checks - before); }
-    { let before = out.checks; gen::default_14::run(&mut out); println!("RAN\tdefault_14\t{}", out.checks - before); }
-    { let before = out.checks; gen::default_15::run(&mut out); println!("RAN\tdefault_15\t{}", out.checks - before); }
-    { let before = out.checks; gen::default_16::run(&mut out); println!("RAN\tdefault_16\t{}", out.checks - before); }
-    { let before = out.checks; gen::default_17::run(&mut out); println!("RAN\tdefault_17\t{}", out.checks - before); }
-    { let before = out.checks; gen::default_18::run(&mut out); println!("RAN\tdefault_18\t{}", out.checks - before); }
-    { let before = out.checks; gen::default_19::run(&mut out); println!("RAN\tdefault_19\t{}", out.checks - before); }
-    { let before = out.checks; gen::default_20::run(&mut out); println!("RAN\tdefault_20\t{}", out.checks - before); }
-    { let before = out.checks; gen::default_21::run(&mut out); println!("RAN\tdefault_21\t{}", out.checks - before); }
-    { let before = out.checks; gen::default_22::run(&mut out); println!("RAN\tdefault_22\t{}", out.checks - before); }
-    { let before = out.checks; gen::default_23::run(&mut out); println!("RAN\tdefault_23\t{}", out.checks - before); }
-    { let before = out.checks; gen::default_24::run(&mut out); println!("RAN\tdefault_24\t{}", out.checks - before); }
-    { let before = out.checks; gen::default_25::run(&mut out); println!("RAN\tdefault_25\t{}", out.checks - before); }
-    { let before = out.checks; gen::default_26::run(&mut out); println!("RAN\tdefault_26\t{}", out.checks - before); }
-    { let before = out.checks; gen::default_27::run(&mut out); println!("RAN\tdefault_27\t{}", out.checks - before); }
-    { let before = out.checks; gen::default_28::run(&mut out); println!("RAN\tdefault_28\t{}", out.checks - before); }
-    { let before = out.checks; gen::default_29::run(&mut out); println!("RAN\tdefault_29\t{}", out.checks - before); }
-    { let before = out.checks; gen::default_30::run(&mut out); println!("RAN\tdefault_30\t{}", out.checks - before); }
-    { let before = out.checks; gen::default_31::run(&mut out); println!("RAN\tdefault_31\t{}", out.checks - before); }
-    { let before = out.checks; gen::default_32::run(&mut out); println!("RAN\tdefault_32\t{}", out.checks - before); }
-    { let before = out.checks; gen::default_33::run(&mut out); println!("RAN\tdefault_33\t{}", out.checks - before); }
-    { let before = out.checks; gen::default_34::run(&mut out); println!("RAN\tdefault_34\t{}", out.checks - before); }
-    { let before = out.checks; gen::default_35::run(&mut out); println!("RAN\tdefault_35\t{}", out.checks - before); }
-    { let before = out.checks; gen::default_36::run(&mut out); println!("RAN\tdefault_36\t{}", out.checks - before); }
-    { let before = out.checks; gen::default_37::run(&mut out); println!("RAN\tdefault_37\t{}", out.checks - before); }
-    { let before = out.checks; gen::default_38::run(&mut out); println!("RAN\tdefault_38\t{}", out.checks - before); }
-    { let before = out.checks; gen::default_39::run(&mut out); println!("RAN\tdefault_39\t{}", out.checks - before); }
-    { let before = out.checks; gen::default_40::run(&mut out); println!("RAN\tdefault_40\t{}", out.checks - before); }
-    { let before = out.checks; gen::default_41::run(&mut out); println!("RAN\tdefault_41\t{}", out.checks - before); }
-    { let before = out.checks; gen::default_42::run(&mut out); println!("RAN\tdefault_42\t{}", out.checks - before); }
-    { let before = out.checks; gen::default_43::run(&mut out); println!("RAN\tdefault_43\t{}", out.checks - before); }
-    { let before = out.checks; gen::default_44::run(&mut out); println!("RAN\tdefault_44\t{}", out.checks - before); }
-    { let before = out.checks; gen::default_45::run(&mut out); println!("RAN\tdefault_45\t{}", out.checks - before); }
-    { let before = out.checks; gen::default_46::run(&mut out); println!("RAN\tdefault_46\t{}", out.checks - before); }
-    { let before = out.checks; gen::default_47::run(&mut out); println!("RAN\tdefault_47\t{}", out.checks - before); }
-    { let before = out.checks; gen::default_48::run(&mut out); println!("RAN\tdefault_48\t{}", out.checks - before); }
-    { let before = out.checks; gen::default_49::run(&mut out); println!("RAN\tdefault_49\t{}", out.checks - before); }
-    { let before = out.checks; gen::default_50::run(&mut out); println!("RAN\tdefault_50\t{}", out.checks - before); }
-    { let before = out.checks; gen::default_51::run(&mut out); println!("RAN\tdefault_51\t{}", out.checks - before); }
-    { let before = out.checks; gen::default_52::run(&mut out); println!("RAN\tdefault_52\t{}", out.checks - before); }
-    { let before = out.checks; gen::default_53::run(&mut out); println!("RAN\tdefault_53\t{}", out.checks - before); }
-    { let before = out.checks; gen::default_54::run(&mut out); println!("RAN\tdefault_54\t{}", out.checks - before); }
-    { let before = out.checks; gen::default_55::run(&mut out); println!("RAN\tdefault_55\t{}", out.checks - before); }
-    { let before = out.checks; gen::default_56::run(&mut out); println!("RAN\tdefault_56\t{}", out.checks - before); }
-    { let before = out.checks; gen::default_57::run(&mut out); println!("RAN\tdefault_57\t{}", out.checks - before); }
-    { let before = out.checks; gen::default_58::run(&mut out); println!("RAN\tdefault_58\t{}", out.checks - before); }
-    { let before = out.checks; gen::default_59::run(&mut out); println!("RAN\tdefault_59\t{}", out.checks - before); }
-    { let before = out.checks; gen::default_60::run(&mut out); println!("RAN\tdefault_60\t{}", out.checks - before); }
-    { let before = out.checks; gen::default_61::run(&mut out); println!("RAN\tdefault_61\t{}", out.checks - before); }
-    { let before = out.checks; gen::default_62::run(&mut out); println!("RAN\tdefault_62\t{}", out.checks - before); }
-    { let before = out.checks; gen::default_63::run(&mut out); println!("RAN\tdefault_63\t{}", out.checks - before); }
-    { let before = out.checks; gen::default_64::run(&mut out); println!("RAN\tdefault_64\t{}", out.checks - before); }
-    { let before = out.checks; gen::default_65::run(&mut out); println!("RAN\tdefault_65\t{}", out.checks - before); }
-    { let before = out.checks; gen::default_66::run(&mut out); println!("RAN\tdefault_66\t{}", out.checks - before); }
-    { let before = out.checks; gen::default_67::run(&mut out); println!("RAN\tdefault_67\t{}", out.checks - before); }
-    { let before = out.checks; gen::default_68::run(&mut out); println!("RAN\tdefault_68\t{}", out.checks - before); }
-    { let before = out.checks; gen::default_69::run(&mut out); println!("RAN\tdefault_69\t{}", out.checks - before); }
-    { let before = out.checks; gen::default_70::run(&mut out); println!("RAN\tdefault_70\t{}", out.checks - before); }
-    { let before = out.checks; gen::default_71::run(&mut out); println!("RAN\tdefault_71\t{}", out.checks - before); }
-    { let before = out.checks; gen::default_72::run(&mut out); println!("RAN\tdefault_72\t{}", out.checks - before); }
-    { let before = out.checks; gen::default_73::run(&mut out); println!("RAN\tdefault_73\t{}", out.checks - before); }
-    { let before = out.checks; gen::default_74::run(&mut out); println!("RAN\tdefault_74\t{}", out.checks - before); }
-    { let before = out.checks; gen::default_75::run(&mut out); println!("RAN\tdefault_75\t{}", out.checks - before); }
-    { let before = out.checks; gen::default_76::run(&mut out); println!("RAN\tdefault_76\t{}", out.checks - before); }
-    { let before = out.checks; gen::default_77::run(&mut out); println!("RAN\tdefault_77\t{}", out.checks - before); }
-    { let before = out.checks; gen::default_78::run(&mut out); println!("RAN\tdefault_78\t{}", out.checks - before); }
-    { let before = out.checks; gen::default_79::run(&mut out); println!("RAN\tdefault_79\t{}", out.checks - before); }
-    { let before = out.checks; gen::default_80::run(&mut out); println!("RAN\tdefault_80\t{}", out.checks - before); }
-    { let before = out.checks; gen::default_81::run(&mut out); println!("RAN\tdefault_81\t{}", out.checks - before); }
-    { let before = out.checks; gen::default_82::run(&mut out); println!("RAN\tdefault_82\t{}", out.checks - before); }
-    { let before = out.checks; gen::default_83::run(&mut out); println!("RAN\tdefault_83\t{}", out.checks - before); }
-    { let before = out.checks; gen::default_84::run(&mut out); println!("RAN\tdefault_84\t{}", out.checks - before); }
-    { let before = out.checks; gen::default_85::run(&mut out); println!("RAN\tdefault_85\t{}", out.checks - before); }
-    { let before = out.checks; gen::default_86::run(&mut out); println!("RAN\tdefault_86\t{}", out.checks - before); }
-    { let before = out.checks; gen::default_87::run(&mut out); println!("RAN\tdefault_87\t{}", out.checks - before); }
-    { let before = out.checks; gen::default_88::run(&mut out); println!("RAN\tdefault_88\t{}", out.checks - before); }
-    { let before = out.checks; gen::default_89::run(&mut out); println!("RAN\tdefault_89\t{}", out.checks - before); }
-    { let before = out.checks; gen::default_90::run(&mut out); println!("RAN\tdefault_90\t{}", out.checks - before); }
-    { let before = out.checks; gen::default_91::run(&mut out); println!("RAN\tdefault_91\t{}", out.checks - before); }
-    { let before = out.checks; gen::default_92::run(&mut out); println!("RAN\tdefault_92\t{}", out.checks - before); }
-    { let before = out.checks; gen::default_93::run(&mut out); println!("RAN\tdefault_93\t{}", out.checks - before); }
-    { let before = out.checks; gen::default_94::run(&mut out); println!("RAN\tdefault_94\t{}", out.checks - before); }
-    { let before = out.checks; gen::default_95::run(&mut out); println!("RAN\tdefault_95\t{}", out.checks - before); }
-    { let before = out.checks; gen::default_96::run(&mut out); println!("RAN\tdefault_96\t{}", out.checks - before); }
-    { let before = out.checks; gen::default_97::run(&mut out); println!("RAN\tdefault_97\t{}", out.checks - before); }
-    { let before = out.checks; gen::default_98::run(&mut out); println!("RAN\tdefault_98\t{}", out.checks - before); }
-    { let before = out.checks; gen::default_99::run(&mut out); println!("RAN\tdefault_99\t{}", out.checks - before); }
-    { let before = out.checks; gen::default_100::run(&mut out); println!("RAN\tdefault_100\t{}", out.checks - before); }
-    { let before = out.checks; gen::default_101::run(&mut out); println!("RAN\tdefault_101\t{}", out.checks - before); }
-    { let before = out.checks; gen::default_102::run(&mut out); println!("RAN\tdefault_102\t{}", out.checks - before); }
-    { let before = out.checks; gen::default_103::run(&mut out); println!("RAN\tdefault_103\t{}", out.checks - before); }
-    { let before = out.checks; gen::default_104::run(&mut out); println!("RAN\tdefault_104\t{}", out.checks - before); }
-    { let before = out.checks; gen::default_105::run(&mut out); println!("RAN\tdefault_105\t{}", out.checks - before); }
-    { let before = out.checks; gen::default_106::run(&mut out); println!("RAN\tdefault_106\t{}", out.checks - before); }
-    { let before = out.checks; gen::default_107::run(&mut out); println!("RAN\tdefault_107\t{}", out.checks - before); }
-    { let before = out.checks; gen::default_108::run(&mut out); println!("RAN\tdefault_108\t{}", out.checks - before); }
-    { let before = out.checks; gen::default_109::run(&mut out); println!("RAN\tdefault_109\t{}", out.checks - before); }
-    { let before = out.checks; gen::default_110::run(&mut out); println!("RAN\tdefault_110\t{}", out.checks - before); }
-    { let before = out.checks; gen::default_111::run(&mut out); println!("RAN\tdefault_111\t{}", out.checks - before); }
-    { let before = out.checks; gen::default_112::run(&mut out); println!("RAN\tdefault_112\t{}", out.checks - before); }
-    { let before = out.checks; gen::default_113::run(&mut out); println!("RAN\tdefault_113\t{}", out.checks - before); }
-    { let before = out.checks; gen::default_114::run(&mut out); println!("RAN\tdefault_114\t{}", out.checks - before); }
-    { let before = out.checks; gen::default_115::run(&mut out); println!("RAN\tdefault_115\t{}", out.checks - before); }
-    { let before = out.checks; gen::default_116::run(&mut out); println!("RAN\tdefault_116\t{}", out.checks - before); }
-    { let before = out.checks; gen::default_117::run(&mut out); println!("RAN\tdefault_117\t{}", out.checks - before); }
-    { let before = out.checks; gen::default_118::run(&mut out); println!("RAN\tdefault_118\t{}", out.checks - before); }
-    { let before = out.checks; gen::default_119::run(&mut out); println!("RAN\tdefault_119\t{}", out.checks - before); }
-    { let before = out.checks; gen::default_120::run(&mut out); println!("RAN\tdefault_120\t{}", out.checks - before); }
-    { let before = out.checks; gen::default_121::run(&mut out); println!("RAN\tdefault_121\t{}", out.checks - before); }
-    { let before = out.checks; gen::default_122::run(&mut out); println!("RAN\tdefault_122\t{}", out.checks - before); }
-    { let before = out.checks; gen::default_123::run(&mut out); println!("RAN\tdefault_123\t{}", out.checks - before); }
-    { let before = out.checks; gen::default_124::run(&mut out); println!("RAN\tdefault_124\t{}", out.checks - before); }
-    { let before = out.checks; gen::default_125::run(&mut out); println!("RAN\tdefault_125\t{}", out.checks - before); }
-    { let before = out.checks; gen::default_126::run(&mut out); println!("RAN\tdefault_126\t{}", out.checks - before); }
-    { let before = out.checks; gen::default_127::run(&mut out); println!("RAN\tdefault_127\t{}", out.checks - before); }
-    { let before = out.checks; gen::default_128::run(&mut out); println!("RAN\tdefault_128\t{}", out.checks - before); }
-    { let before = out.checks; gen::default_129::run(&mut out); println!("RAN\tdefault_129\t{}", out.checks - before); }
-    { let before = out.checks; gen::default_130::run(&mut out); println!("RAN\tdefault_130\t{}", out.checks - before); }
-    { let before = out.checks; gen::default_131::run(&mut out); println!("RAN\tdefault_131\t{}", out.checks - before); }
-    { let before = out.checks; gen::default_132::run(&mut out); println!("RAN\tdefault_132\t{}", out.checks - before); }
-    { let before = out.checks; gen::default_133::run(&mut out); println!("RAN\tdefault_133\t{}", out.checks - before); }
-    { let before = out.checks; gen::default_134::run(&mut out); println!("RAN\tdefault_134\t{}", out.checks - before); }
-    { let before = out.checks; gen::default_135::run(&mut out); println!("RAN\tdefault_135\t{}", out.checks - before); }
-    { let before = out.checks; gen::default_136::run(&mut out); println!("RAN\tdefault_136\t{}", out.checks - before); }
-    { let before = out.checks; gen::default_137::run(&mut out); println!("RAN\tdefault_137\t{}", out.checks - before); }
-    { let before = out.checks; gen::default_138::run(&mut out); println!("RAN\tdefault_138\t{}", out.checks - before); }
-    { let before = out.checks; gen::default_139::run(&mut out); println!("RAN\tdefault_139\t{}", out.checks - before); }
-    { let before = out.checks; gen::default_140::run(&mut out); println!("RAN\tdefault_140\t{}", out.checks - before); }
-    { let before = out.checks; gen::default_141::run(&mut out); println!("RAN\tdefault_141\t{}", out.checks - before); }
-    { let before = out.checks; gen::default_142::run(&mut out); println!("RAN\tdefault_142\t{}", out.checks - before); }
-    { let before = out.checks; gen::default_143::run(&mut out); println!("RAN\tdefault_143\t{}", out.checks - before); }
-    { let before = out.checks; gen::default_144::run(&mut out); println!("RAN\tdefault_144\t{}", out.checks - before); }
-    { let before = out.checks; gen::default_145::run(&mut out); println!("RAN\tdefault_145\t{}", out.checks - before); }
-    { let before = out.checks; gen::default_146::run(&mut out); println!("RAN\tdefault_146\t{}", out.checks - before); }
-    { let before = out.checks; gen::default_147::run(&mut out); println!("RAN\tdefault_147\t{}", out.checks - before); }
-    { let before = out.checks; gen::default_148::run(&mut out); println!("RAN\tdefault_148\t{}", out.checks - before); }
-    { let before = out.checks; gen::default_149::run(&mut out); println!("RAN\tdefault_149\t{}", out.checks - before); }
-    { let before = out.checks; gen::deref_0::run(&mut out); println!("RAN\tderef_0\t{}", out.checks - before); }
-    { let before = out.checks; gen::deref_1::run(&mut out); println!("RAN\tderef_1\t{}", out.checks - before); }
-    { let before = out.checks; gen::deref_2::run(&mut out); println!("RAN\tderef_2\t{}", out.checks - before); }
-    { let before = out.checks; gen::deref_3::run(&mut out); println!("RAN\tderef_3\t{}", out.checks - before); }
-    { let before = out.checks; gen::deref_4::run(&mut out); println!("RAN\tderef_4\t{}", out.checks - before); }
-    { let before = out.checks; gen::deref_5::run(&mut out); println!("RAN\tderef_5\t{}", out.checks - before); }
-    { let before = out.checks; gen::deref_6::run(&mut out); println!("RAN\tderef_6\t{}", out.checks - before); }
-    { let before = out.checks; gen::deref_7::run(&mut out); println!("RAN\tderef_7\t{}", out.checks - before); }
-    { let before = out.checks; gen::deref_8::run(&mut out); println!("RAN\tderef_8\t{}", out.checks - before); }
-    { let before = out.checks; gen::deref_9::run(&mut out); println!("RAN\tderef_9\t{}", out.checks - before); }
-    { let before = out.checks; gen::deref_10::run(&mut out); println!("RAN\tderef_10\t{}", out.checks - before); }
-    { let before = out.checks; gen::deref_11::run(&mut out); println!("RAN\tderef_11\t{}", out.checks - before); }
-    { let before = out.checks; gen::deref_12::run(&mut out); println!("RAN\tderef_12\t{}", out.checks - before); }
-    { let before = out.checks; gen::deref_13::run(&mut out); println!("RAN\tderef_13\t{}", out.checks - before); }
-    { let before = out.checks; gen::deref_14::run(&mut out); println!("RAN\tderef_14\t{}", out.checks - before); }
-    { let before = out.checks; gen::deref_15::run(&mut out); println!("RAN\tderef_15\t{}", out.checks - before); }
-    { let before = out.checks; gen::deref_16::run(&mut out); println!("RAN\tderef_16\t{}", out.checks - before); }
-    { let before = out.checks; gen::deref_17::run(&mut out); println!("RAN\tderef_17\t{}", out.checks - before); }
-    { let before = out.checks; gen::deref_18::run(&mut out); println!("RAN\tderef_18\t{}", out.checks - before); }
-    { let before = out.checks; gen::deref_19::run(&mut out); println!("RAN\tderef_19\t{}", out.checks - before); }
-    { let before = out.checks; gen::deref_20::run(&mut out); println!("RAN\tderef_20\t{}", out.checks - before); }
-    { let before = out.checks; gen::deref_21::run(&mut out); println!("RAN\tderef_21\t{}", out.checks - before); }
-    { let before = out.checks; gen::deref_22::run(&mut out); println!("RAN\tderef_22\t{}", out.checks - before); }
-    { let before = out.checks; gen::deref_23::run(&mut out); println!("RAN\tderef_23\t{}", out.checks - before); }
-    { let before = out.checks; gen::deref_24::run(&mut out); println!("RAN\tderef_24\t{}", out.checks - before); }
-    { let before = out.checks; gen::deref_25::run(&mut out); println!("RAN\tderef_25\t{}", out.checks - before); }
-    { let before = out.checks; gen::deref_26::run(&mut out); println!("RAN\tderef_26\t{}", out.checks - before); }
-    { let before = out.checks; gen::deref_27::run(&mut out); println!("RAN\tderef_27\t{}", out.checks - before); }
-    { let before = out.checks; gen::deref_28::run(&mut out); println!("RAN\tderef_28\t{}", out.checks - before); }
-    { let before = out.checks; gen::deref_29::run(&mut out); println!("RAN\tderef_29\t{}", out.checks - before); }
-    { let before = out.checks; gen::deref_30::run(&mut out); println!("RAN\tderef_30\t{}", out.checks - before); }
-    { let before = out.checks; gen::deref_31::run(&mut out); println!("RAN\tderef_31\t{}", out.checks - before); }
-    { let before = out.checks; gen::deref_32::run(&mut out); println!("RAN\tderef_32\t{}", out.checks - before); }
-    { let before = out.checks; gen::deref_33::run(&mut out); println!("RAN\tderef_33\t{}", out.checks - before); }
-    { let before = out.checks; gen::deref_34::run(&mut out); println!("RAN\tderef_34\t{}", out.checks - before); }
-    { let before = out.checks; gen::deref_35::run(&mut out); println!("RAN\tderef_35\t{}", out.checks - before); }
-    { let before = out.checks; gen::deref_36::run(&mut out); println!("RAN\tderef_36\t{}", out.checks - before); }
-    { let before = out.checks; gen::deref_37::run(&mut out); println!("RAN\tderef_37\t{}", out.checks - before); }
-    { let before = out.checks; gen::deref_38::run(&mut out); println!("RAN\tderef_38\t{}", out.checks - before); }
-    { let before = out.checks; gen::deref_39::run(&mut out); println!("RAN\tderef_39\t{}", out.checks - before); }
-    { let before = out.checks; gen::deref_40::run(&mut out); println!("RAN\tderef_40\t{}", out.checks - before); }
-    { let before = out.checks; gen::deref_41::run(&mut out); println!("RAN\tderef_41\t{}", out.checks - before); }
-    { let before = out.checks; gen::deref_42::run(&mut out); println!("RAN\tderef_42\t{}", out.checks - before); }
-    { let before = out.checks; gen::deref_43::run(&mut out); println!("RAN\tderef_43\t{}", out.checks - before); }
-    { let before = out.checks; gen::deref_44::run(&mut out); println!("RAN\tderef_44\t{}", out.checks - before); }
-    { let before = out.checks; gen::deref_45::run(&mut out); println!("RAN\tderef_45\t{}", out.checks - before); }
-    { let before = out.checks; gen::deref_46::run(&mut out); println!("RAN\tderef_46\t{}", out.checks - before); }
-    { let before = out.checks; gen::deref_47::run(&mut out); println!("RAN\tderef_47\t{}", out.checks - before); }
-    { let before = out.checks; gen::deref_48::run(&mut out); println!("RAN\tderef_48\t{}", out.checks - before); }
-    { let before = out.checks; gen::deref_49::run(&mut out); println!("RAN\tderef_49\t{}", out.checks - before); }
-    { let before = out.checks; gen::deref_50::run(&mut out); println!("RAN\tderef_50\t{}", out.checks - before); }
-    { let before = out.checks; gen::deref_51::run(&mut out); println!("RAN\tderef_51\t{}", out.checks - before); }
-    { let before = out.checks; gen::deref_52::run(&mut out); println!("RAN\tderef_52\t{}", out.checks - before); }
-    { let before = out.checks; gen::deref_53::run(&mut out); println!("RAN\tderef_53\t{}", out.checks - before); }
-    { let before = out.checks; gen::deref_54::run(&mut out); println!("RAN\tderef_54\t{}", out.checks - before); }
-    { let before = out.checks; gen::deref_55::run(&mut out); println!("RAN\tderef_55\t{}", out.checks - before); }
-    { let before = out.checks; gen::deref_56::run(&mut out); println!("RAN\tderef_56\t{}", out.checks - before); }
-    { let before = out.checks; gen::deref_57::run(&mut out); println!("RAN\tderef_57\t{}", out.checks - before); }
-    { let before = out.checks; gen::deref_58::run(&mut out); println!("RAN\tderef_58\t{}", out.checks - before); }
-    { let before = out.checks; gen::deref_59::run(&mut out); println!("RAN\tderef_59\t{}", out.checks - before); }
-    { let before = out.checks; gen::deref_60::run(&mut out); println!("RAN\tderef_60\t{}", out.checks - before); }
-    { let before = out.checks; gen::deref_61::run(&mut out); println!("RAN\tderef_61\t{}", out.checks - before); }
-    { let before = out.checks; gen::deref_62::run(&mut out); println!("RAN\tderef_62\t{}", out.checks - before); }
-    { let before = out.checks; gen::deref_63::run(&mut out); println!("RAN\tderef_63\t{}", out.checks - before); }
-    { let before = out.checks; gen::deref_64::run(&mut out); println!("RAN\tderef_64\t{}", out.checks - before); }
-    { let before = out.checks; gen::deref_65::run(&mut out); println!("RAN\tderef_65\t{}", out.checks - before); }
-    { let before = out.checks; gen::deref_66::run(&mut out); println!("RAN\tderef_66\t{}", out.checks - before); }
-    { let before = out.checks; gen::deref_67::run(&mut out); println!("RAN\tderef_67\t{}", out.checks - before); }
-    { let before = out.checks; gen::deref_68::run(&mut out); println!("RAN\tderef_68\t{}", out.checks - before); }
-    { let before = out.checks; gen::deref_69::run(&mut out); println!("RAN\tderef_69\t{}", out.checks - before); }
-    { let before = out.checks; gen::deref_70::run(&mut out); println!("RAN\tderef_70\t{}", out.checks - before); }
-    { let before = out.checks; gen::deref_71::run(&mut out); println!("RAN\tderef_71\t{}", out.checks - before); }
-    { let before = out.checks; gen::deref_72::run(&mut out); println!("RAN\tderef_72\t{}", out.checks - before); }
-    { let before = out.checks; gen::deref_73::run(&mut out); println!("RAN\tderef_73\t{}", out.checks - before); }
-    { let before = out.checks; gen::deref_74::run(&mut out); println!("RAN\tderef_74\t{}", out.checks - before); }
-    { let before = out.checks; gen::deref_75::run(&mut out); println!("RAN\tderef_75\t{}", out.checks - before); }
-    { let before = out.checks; gen::deref_76::run(&mut out); println!("RAN\tderef_76\t{}", out.checks - before); }
-    { let before = out.checks; gen::deref_77::run(&mut out); println!("RAN\tderef_77\t{}", out.checks - before); }
-    { let before = out.checks; gen::deref_78::run(&mut out); println!("RAN\tderef_78\t{}", out.checks - before); }
-    { let before = out.checks; gen::deref_79::run(&mut out); println!("RAN\tderef_79\t{}", out.checks - before); }
-    { let before = out.checks; gen::deref_80::run(&mut out); println!("RAN\tderef_80\t{}", out.checks - before); }
-    { let before = out.checks; gen::deref_81::run(&mut out); println!("RAN\tderef_81\t{}", out.checks - before); }
-    { let before = out.checks; gen::deref_82::run(&mut out); println!("RAN\tderef_82\t{}", out.checks - before); }
-    { let before = out.checks; gen::deref_83::run(&mut out); println!("RAN\tderef_83\t{}", out.checks - before); }
-    { let before = out.checks; gen::deref_84::run(&mut out); println!("RAN\tderef_84\t{}", out.checks - before); }
-    { let before = out.checks; gen::deref_85::run(&mut out); println!("RAN\tderef_85\t{}", out.checks - before); }
-    { let before = out.checks; gen::deref_86::run(&mut out); println!("RAN\tderef_86\t{}", out.checks - before); }
-    { let before = out.checks; gen::deref_87::run(&mut out); println!("RAN\tderef_87\t{}", out.checks - before); }
-    { let before = out.checks; gen::deref_88::run(&mut out); println!("RAN\tderef_88\t{}", out.checks - before); }
-    { let before = out.checks; gen::deref_89::run(&mut out); println!("RAN\tderef_89\t{}", out.checks - before); }
-    { let before = out.checks; gen::deref_90::run(&mut out); println!("RAN\tderef_90\t{}", out.checks - before); }
-    { let before = out.checks; gen::deref_91::run(&mut out); println!("RAN\tderef_91\t{}", out.checks - before); }
-    { let before = out.checks; gen::deref_92::run(&mut out); println!("RAN\tderef_92\t{}", out.checks - before); }
-    { let before = out.checks; gen::deref_93::run(&mut out); println!("RAN\tderef_93\t{}", out.checks - before); }
-    { let before = out.checks; gen::deref_94::run(&mut out); println!("RAN\tderef_94\t{}", out.checks - before); }
-    { let before = out.checks; gen::deref_95::run(&mut out); println!("RAN\tderef_95\t{}", out.checks - before); }
-    { let before = out.checks; gen::deref_96::run(&mut out); println!("RAN\tderef_96\t{}", out.checks - before); }
-    { let before = out.checks; gen::deref_97::run(&mut out); println!("RAN\tderef_97\t{}", out.checks - before); }
-    { let before = out.checks; gen::deref_98::run(&mut out); println!("RAN\tderef_98\t{}", out.checks - before); }
-    { let before = out.checks; gen::deref_99::run(&mut out); println!("RAN\tderef_99\t{}", out.checks - before); }
-    { let before = out.checks; gen::deref_100::run(&mut out); println!("RAN\tderef_100\t{}", out.checks - before); }
-    { let before = out.checks; gen::deref_101::run(&mut out); println!("RAN\tderef_101\t{}", out.checks - before); }
-    { let before = out.checks; gen::deref_102::run(&mut out); println!("RAN\tderef_102\t{}", out.checks - before); }
-    { let before = out.checks; gen::deref_103::run(&mut out); println!("RAN\tderef_103\t{}", out.checks - before); }
-    { let before = out.checks; gen::deref_104::run(&mut out); println!("RAN\tderef_104\t{}", out.checks - before); }
-    { let before = out.checks; gen::deref_105::run(&mut out); println!("RAN\tderef_105\t{}", out.checks - before); }
-    { let before = out.checks; gen::deref_106::run(&mut out); println!("RAN\tderef_106\t{}", out.checks - before); }
-    { let before = out.checks; gen::deref_107::run(&mut out); println!("RAN\tderef_107\t{}", out.checks - before); }
-    { let before = out.checks; gen::deref_108::run(&mut out); println!("RAN\tderef_108\t{}", out.checks - before); }
-    { let before = out.checks; gen::deref_109::run(&mut out); println!("RAN\tderef_109\t{}", out.checks - before); }
-    { let before = out.checks; gen::deref_110::run(&mut out); println!("RAN\tderef_110\t{}", out.checks - before); }
-    { let before = out.checks; gen::deref_111::run(&mut out); println!("RAN\tderef_111\t{}", out.checks - before); }
-    { let before = out.checks; gen::deref_112::run(&mut out); println!("RAN\tderef_112\t{}", out.checks - before); }
-    { let before = out.checks; gen::deref_113::run(&mut out); println!("RAN\tderef_113\t{}", out.checks - before); }
-    { let before = out.checks; gen::deref_114::run(&mut out); println!("RAN\tderef_114\t{}", out.checks - before); }
-    { let before = out.checks; gen::deref_115::run(&mut out); println!("RAN\tderef_115\t{}", out.checks - before); }
-    { let before = out.checks; gen::deref_116::run(&mut out); println!("RAN\tderef_116\t{}", out.checks - before); }
-    { let before = out.checks; gen::deref_117::run(&mut out); println!("RAN\tderef_117\t{}", out.checks - before); }
-    { let before = out.checks; gen::deref_118::run(&mut out); println!("RAN\tderef_118\t{}", out.checks - before); }
-    { let before = out.checks; gen::deref_119::run(&mut out); println!("RAN\tderef_119\t{}", out.checks - before); }
-    { let before = out.checks; gen::deref_120::run(&mut out); println!("RAN\tderef_120\t{}", out.checks - before); }
-    { let before = out.checks; gen::deref_121::run(&mut out); println!("RAN\tderef_121\t{}", out.checks - before); }
-    { let before = out.checks; gen::deref_122::run(&mut out); println!("RAN\tderef_122\t{}", out.checks - before); }
-    { let before = out.checks; gen::deref_123::run(&mut out); println!("RAN\tderef_123\t{}", out.checks - before); }
-    { let before = out.checks; gen::deref_124::run(&mut out); println!("RAN\tderef_124\t{}", out.checks - before); }
-    { let before = out.checks; gen::deref_125::run(&mut out); println!("RAN\tderef_125\t{}", out.checks - before); }
-    { let before = out.checks; gen::deref_126::run(&mut out); println!("RAN\tderef_126\t{}", out.checks - before); }
-    { let before = out.checks; gen::deref_127::run(&mut out); println!("RAN\tderef_127\t{}", out.checks - before); }
-    { let before = out.checks; gen::deref_128::run(&mut out); println!("RAN\tderef_128\t{}", out.checks - before); }
-    { let before = out.checks; gen::deref_129::run(&mut out); println!("RAN\tderef_129\t{}", out.checks - before); }
-    { let before = out.checks; gen::deref_130::run(&mut out); println!("RAN\tderef_130\t{}", out.checks - before); }
-    { let before = out.checks; gen::deref_131::run(&mut out); println!("RAN\tderef_131\t{}", out.checks - before); }
-    { let before = out.checks; gen::deref_132::run(&mut out); println!("RAN\tderef_132\t{}", out.checks - before); }
-    { let before = out.checks; gen::deref_133::run(&mut out); println!("RAN\tderef_133\t{}", out.checks - before); }
-    { let before = out.checks; gen::deref_134::run(&mut out); println!("RAN\tderef_134\t{}", out.checks - before); }
-    { let before = out.checks; gen::deref_135::run(&mut out); println!("RAN\tderef_135\t{}", out.checks - before); }
-    { let before = out.checks; gen::deref_136::run(&mut out); println!("RAN\tderef_136\t{}", out.checks - before); }
-    { let before = out.checks; gen::deref_137::run(&mut out); println!("RAN\tderef_137\t{}", out.checks - before); }
-    { let before = out.checks; gen::deref_138::run(&mut out); println!("RAN\tderef_138\t{}", out.checks - before); }
-    { let before = out.checks; gen::deref_139::run(&mut out); println!("RAN\tderef_139\t{}", out.checks - before); }
-    { let before = out.checks; gen::deref_140::run(&mut out); println!("RAN\tderef_140\t{}", out.checks - before); }
-    { let before = out.checks; gen::deref_141::run(&mut out); println!("RAN\tderef_141\t{}", out.checks - before); }
-    { let before = out.checks; gen::deref_142::run(&mut out); println!("RAN\tderef_142\t{}", out.checks - before); }
-    { let before = out.checks; gen::deref_143::run(&mut out); println!("RAN\tderef_143\t{}", out.checks - before); }
-    { let before = out.checks; gen::deref_144::run(&mut out); println!("RAN\tderef_144\t{}", out.checks - before); }
-    { let before = out.checks; gen::deref_145::run(&mut out); println!("RAN\tderef_145\t{}", out.checks - before); }
-    { let before = out.checks; gen::deref_146::run(&mut out); println!("RAN\tderef_146\t{}", out.checks - before); }
-    { let before = out.checks; gen::deref_147::run(&mut out); println!("RAN\tderef_147\t{}", out.checks - before); }
-    { let before = out.checks; gen::deref_148::run(&mut out); println!("RAN\tderef_148\t{}", out.checks - before); }
-    { let before = out.checks; gen::deref_149::run(&mut out); println!("RAN\tderef_149\t{}", out.checks - before); }
-    { let before = out.checks; gen::into_0::run(&mut out); println!("RAN\tinto_0\t{}", out.checks - before); }
-    { let before = out.checks; gen::into_1::run(&mut out); println!("RAN\tinto_1\t{}", out.checks - before); }
-    { let before = out.checks; gen::into_2::run(&mut out); println!("RAN\tinto_2\t{}", out.checks - before); }
-    { let before = out.checks; gen::into_3::run(&mut out); println!("RAN\tinto_3\t{}", out.checks - before); }
-    { let before = out.checks; gen::into_4::run(&mut out); println!("RAN\tinto_4\t{}", out.checks - before); }
-    { let before = out.checks; gen::into_5::run(&mut out); println!("RAN\tinto_5\t{}", out.checks - before); }
-    { let before = out.checks; gen::into_6::run(&mut out); println!("RAN\tinto_6\t{}", out.checks - before); }
-    { let before = out.checks; gen::into_7::run(&mut out); println!("RAN\tinto_7\t{}", out.checks - before); }
-    { let before = out.checks; gen::into_8::run(&mut out); println!("RAN\tinto_8\t{}", out.checks - before); }
-    { let before = out.checks; gen::into_9::run(&mut out); println!("RAN\tinto_9\t{}", out.checks - before); }
-    { let before = out.checks; gen::into_10::run(&mut out); println!("RAN\tinto_10\t{}", out.checks - before); }
-    { let before = out.checks; gen::into_11::run(&mut out); println!("RAN\tinto_11\t{}", out.checks - before); }
-    { let before = out.checks; gen::into_12::run(&mut out); println!("RAN\tinto_12\t{}", out.checks - before); }
-    { let before = out.checks; gen::into_13::run(&mut out); println!("RAN\tinto_13\t{}", out.checks - before); }
-    { let before = out.checks; gen::into_14::run(&mut out); println!("RAN\tinto_14\t{}", out.checks - before); }
-    { let before = out.checks; gen::into_15::run(&mut out); println!("RAN\tinto_15\t{}", out.checks - before); }
-    { let before = out.checks; gen::into_16::run(&mut out); println!("RAN\tinto_16\t{}", out.checks - before); }
-    { let before = out.checks; gen::into_17::run(&mut out); println!("RAN\tinto_17\t{}", out.checks - before); }
-    { let before = out.checks; gen::into_18::run(&mut out); println!("RAN\tinto_18\t{}", out.checks - before); }
-    { let before = out.checks; gen::into_19::run(&mut out); println!("RAN\tinto_19\t{}", out.checks - before); }
-    { let before = out.checks; gen::into_20::run(&mut out); println!("RAN\tinto_20\t{}", out.checks - before); }
-    { let before = out.checks; gen::into_21::run(&mut out); println!("RAN\tinto_21\t{}", out.checks - before); }
-    { let before = out.checks; gen::into_22::run(&mut out); println!("RAN\tinto_22\t{}", out.checks - before); }
-    { let before = out.checks; gen::into_23::run(&mut out); println!("RAN\tinto_23\t{}", out.checks - before); }
-    { let before = out.checks; gen::into_24::run(&mut out); println!("RAN\tinto_24\t{}", out.checks - before); }
-    { let before = out.checks; gen::into_25::run(&mut out); println!("RAN\tinto_25\t{}", out.checks - before); }
-    { let before = out.checks; gen::into_26::run(&mut out); println!("RAN\tinto_26\t{}", out.checks - before); }
-    { let before = out.checks; gen::into_27::run(&mut out); println!("RAN\tinto_27\t{}", out.checks - before); }
-    { let before = out.checks; gen::into_28::run(&mut out); println!("RAN\tinto_28\t{}", out.checks - before); }
-    { let before = out.checks; gen::into_29::run(&mut out); println!("RAN\tinto_29\t{}", out.checks - before); }
-    { let before = out.checks; gen::into_30::run(&mut out); println!("RAN\tinto_30\t{}", out.checks - before); }
-    { let before = out.checks; gen::into_31::run(&mut out); println!("RAN\tinto_31\t{}", out.checks - before); }
-    { let before = out.checks; gen::into_32::run(&mut out); println!("RAN\tinto_32\t{}", out.checks - before); }
-    { let before = out.checks; gen::into_33::run(&mut out); println!("RAN\tinto_33\t{}", out.checks - before); }
-    { let before = out.checks; gen::into_34::run(&mut out); println!("RAN\tinto_34\t{}", out.checks - before); }
-    { let before = out.checks; gen::into_35::run(&mut out); println!("RAN\tinto_35\t{}", out.checks - before); }
-    { let before = out.checks; gen::into_36::run(&mut out); println!("RAN\tinto_36\t{}", out.checks - before); }
-    { let before = out.checks; gen::into_37::run(&mut out); println!("RAN\tinto_37\t{}", out.checks - before); }
-    { let before = out.checks; gen::into_38::run(&mut out); println!("RAN\tinto_38\t{}", out.checks - before); }
-    { let before = out.checks; gen::into_39::run(&mut out); println!("RAN\tinto_39\t{}", out.checks - before); }
-    { let before = out.checks; gen::into_40::run(&mut out); println!("RAN\tinto_40\t{}", out.checks - before); }
-    { let before = out.checks; gen::into_41::run(&mut out); println!("RAN\tinto_41\t{}", out.checks - before); }
-    { let before = out.checks; gen::into_42::run(&mut out); println!("RAN\tinto_42\t{}", out.checks - before); }
-    { let before = out.checks; gen::into_43::run(&mut out); println!("RAN\tinto_43\t{}", out.checks - before); }
-    { let before = out.checks; gen::into_44::run(&mut out); println!("RAN\tinto_44\t{}", out.checks - before); }
-    { let before = out.checks; gen::into_45::run(&mut out); println!("RAN\tinto_45\t{}", out.checks - before); }
-    { let before = out.checks; gen::into_46::run(&mut out); println!("RAN\tinto_46\t{}", out.checks - before); }
-    { let before = out.checks; gen::into_47::run(&mut out); println!("RAN\tinto_47\t{}", out.checks - before); }
-    { let before = out.checks; gen::into_48::run(&mut out); println!("RAN\tinto_48\t{}", out.checks - before); }
-    { let before = out.checks; gen::into_49::run(&mut out); println!("RAN\tinto_49\t{}", out.checks - before); }
-    { let before = out.checks; gen::into_50::run(&mut out); println!("RAN\tinto_50\t{}", out.checks - before); }
-    { let before = out.checks; gen::into_51::run(&mut out); println!("RAN\tinto_51\t{}", out.checks - before); }
-    { let before = out.checks; gen::into_52::run(&mut out); println!("RAN\tinto_52\t{}", out.checks - before); }
-    { let before = out.checks; gen::into_53::run(&mut out); println!("RAN\tinto_53\t{}", out.checks - before); }
-    { let before = out.checks; gen::into_54::run(&mut out); println!("RAN\tinto_54\t{}", out.checks - before); }
-    { let before = out.checks; gen::into_55::run(&mut out); println!("RAN\tinto_55\t{}", out.checks - before); }
-    { let before = out.checks; gen::into_56::run(&mut out); println!("RAN\tinto_56\t{}", out.checks - before); }
-    { let before = out.checks; gen::into_57::run(&mut out); println!("RAN\tinto_57\t{}", out.checks - before); }
-    { let before = out.checks; gen::into_58::run(&mut out); println!("RAN\tinto_58\t{}", out.checks - before); }
-    { let before = out.checks; gen::into_59::run(&mut out); println!("RAN\tinto_59\t{}", out.checks - before); }
-    { let before = out.checks; gen::into_60::run(&mut out); println!("RAN\tinto_60\t{}", out.checks - before); }
-    { let before = out.checks; gen::into_61::run(&mut out); println!("RAN\tinto_61\t{}", out.checks - before); }
-    { let before = out.checks; gen::into_62::run(&mut out); println!("RAN\tinto_62\t{}", out.checks - before); }
-    { let before = out.checks; gen::into_63::run(&mut out); println!("RAN\tinto_63\t{}", out.checks - before); }
-    { let before = out.checks; gen::into_64::run(&mut out); println!("RAN\tinto_64\t{}", out.checks - before); }
-    { let before = out.checks; gen::into_65::run(&mut out); println!("RAN\tinto_65\t{}", out.checks - before); }
-    { let before = out.checks; gen::into_66::run(&mut out); println!("RAN\tinto_66\t{}", out.checks - before); }
-    { let before = out.checks; gen::into_67::run(&mut out); println!("RAN\tinto_67\t{}", out.checks - before); }
-    { let before = out.checks; gen::into_68::run(&mut out); println!("RAN\tinto_68\t{}", out.checks - before); }
-    { let before = out.checks; gen::into_69::run(&mut out); println!("RAN\tinto_69\t{}", out.checks - before); }
-    { let before = out.checks; gen::into_70::run(&mut out); println!("RAN\tinto_70\t{}", out.checks - before); }
-    { let before = out.checks; gen::into_71::run(&mut out); println!("RAN\tinto_71\t{}", out.checks - before); }
-    { let before = out.checks; gen::into_72::run(&mut out); println!("RAN\tinto_72\t{}", out.checks - before); }
-    { let before = out.checks; gen::into_73::run(&mut out); println!("RAN\tinto_73\t{}", out.checks - before); }
-    { let before = out.checks; gen::into_74::run(&mut out); println!("RAN\tinto_74\t{}", out.checks - before); }
-    { let before = out.checks; gen::into_75::run(&mut out); println!("RAN\tinto_75\t{}", out.checks - before); }
-    { let before = out.checks; gen::into_76::run(&mut out); println!("RAN\tinto_76\t{}", out.checks - before); }
-    { let before = out.checks; gen::into_77::run(&mut out); println!("RAN\tinto_77\t{}", out.checks - before); }
-    { let before = out.checks; gen::into_78::run(&mut out); println!("RAN\tinto_78\t{}", out.checks - before); }
-    { let before = out.checks; gen::into_79::run(&mut out); println!("RAN\tinto_79\t{}", out.checks - before); }
-    { let before = out.checks; gen::into_80::run(&mut out); println!("RAN\tinto_80\t{}", out.checks - before); }
-    { let before = out.checks; gen::into_81::run(&mut out); println!("RAN\tinto_81\t{}", out.checks - before); }
-    { let before = out.checks; gen::into_82::run(&mut out); println!("RAN\tinto_82\t{}", out.checks - before); }
-    { let before = out.checks; gen::into_83::run(&mut out); println!("RAN\tinto_83\t{}", out.checks - before); }
-    { let before = out.checks; gen::into_84::run(&mut out); println!("RAN\tinto_84\t{}", out.checks - before); }
-    { let before = out.checks; gen::into_85::run(&mut out); println!("RAN\tinto_85\t{}", out.checks - before); }
-    { let before = out.checks; gen::into_86::run(&mut out); println!("RAN\tinto_86\t{}", out.checks - before); }
-    { let before = out.checks; gen::into_87::run(&mut out); println!("RAN\tinto_87\t{}", out.checks - before); }
-    { let before = out.checks; gen::into_88::run(&mut out); println!("RAN\tinto_88\t{}", out.checks - before); }
-    { let before = out.checks; gen::into_89::run(&mut out); println!("RAN\tinto_89\t{}", out.checks - before); }
-    { let before = out.checks; gen::into_90::run(&mut out); println!("RAN\tinto_90\t{}", out.checks - before); }
-    { let before = out.checks; gen::into_91::run(&mut out); println!("RAN\tinto_91\t{}", out.checks - before); }
-    { let before = out.checks; gen::into_92::run(&mut out); println!("RAN\tinto_92\t{}", out.checks - before); }
-    { let before = out.checks; gen::into_93::run(&mut out); println!("RAN\tinto_93\t{}", out.checks - before); }
-    { let before = out.checks; gen::into_94::run(&mut out); println!("RAN\tinto_94\t{}", out.checks - before); }
-    { let before = out.checks; gen::into_95::run(&mut out); println!("RAN\tinto_95\t{}", out.checks - before); }
-    { let before = out.checks; gen::into_96::run(&mut out); println!("RAN\tinto_96\t{}", out.checks - before); }
-    { let before = out.checks; gen::into_97::run(&mut out); println!("RAN\tinto_97\t{}", out.checks - before); }
-    { let before = out.checks; gen::into_98::run(&mut out); println!("RAN\tinto_98\t{}", out.checks - before); }
-    { let before = out.checks; gen::into_99::run(&mut out); println!("RAN\tinto_99\t{}", out.checks - before); }
-    { let before = out.checks; gen::into_100::run(&mut out); println!("RAN\tinto_100\t{}", out.checks - before); }
-    { let before = out.checks; gen::into_101::run(&mut out); println!("RAN\tinto_101\t{}", out.checks - before); }
-    { let before = out.checks; gen::into_102::run(&mut out); println!("RAN\tinto_102\t{}", out.checks - before); }
-    { let before = out.checks; gen::into_103::run(&mut out); println!("RAN\tinto_103\t{}", out.checks - before); }
-    { let before = out.checks; gen::into_104::run(&mut out); println!("RAN\tinto_104\t{}", out.checks - before); }
-    { let before = out.checks; gen::into_105::run(&mut out); println!("RAN\tinto_105\t{}", out.checks - before); }
-    { let before = out.checks; gen::into_106::run(&mut out); println!("RAN\tinto_106\t{}", out.checks - before); }
-    { let before = out.checks; gen::into_107::run(&mut out); println!("RAN\tinto_107\t{}", out.checks - before); }
-    { let before = out.checks; gen::into_108::run(&mut out); println!("RAN\tinto_108\t{}", out.checks - before); }
-    { let before = out.checks; gen::into_109::run(&mut out); println!("RAN\tinto_109\t{}", out.checks - before); }
-    { let before = out.checks; gen::into_110::run(&mut out); println!("RAN\tinto_110\t{}", out.checks - before); }
-    { let before = out.checks; gen::into_111::run(&mut out); println!("RAN\tinto_111\t{}", out.checks - before); }
-    { let before = out.checks; gen::into_112::run(&mut out); println!("RAN\tinto_112\t{}", out.checks - before); }
-    { let before = out.checks; gen::into_113::run(&mut out); println!("RAN\tinto_113\t{}", out.checks - before); }
-    { let before = out.checks; gen::into_114::run(&mut out); println!("RAN\tinto_114\t{}", out.checks - before); }
-    { let before = out.checks; gen::into_115::run(&mut out); println!("RAN\tinto_115\t{}", out.checks - before); }
-    { let before = out.checks; gen::into_116::run(&mut out); println!("RAN\tinto_116\t{}", out.checks - before); }
-    { let before = out.checks; gen::into_117::run(&mut out); println!("RAN\tinto_117\t{}", out.checks - before); }
-    { let before = out.checks; gen::into_118::run(&mut out); println!("RAN\tinto_118\t{}", out.checks - before); }
-    { let before = out.checks; gen::into_119::run(&mut out); println!("RAN\tinto_119\t{}", out.checks - before); }
-    { let before = out.checks; gen::into_120::run(&mut out); println!("RAN\tinto_120\t{}", out.checks - before); }
-    { let before = out.checks; gen::into_121::run(&mut out); println!("RAN\tinto_121\t{}", out.checks - before); }
-    { let before = out.checks; gen::into_122::run(&mut out); println!("RAN\tinto_122\t{}", out.checks - before); }
-    { let before = out.checks; gen::into_123::run(&mut out); println!("RAN\tinto_123\t{}", out.checks - before); }
-    { let before = out.checks; gen::into_124::run(&mut out); println!("RAN\tinto_124\t{}", out.checks - before); }
-    { let before = out.checks; gen::into_125::run(&mut out); println!("RAN\tinto_125\t{}", out.checks - before); }
-    { let before = out.checks; gen::into_126::run(&mut out); println!("RAN\tinto_126\t{}", out.checks - before); }
-    { let before = out.checks; gen::into_127::run(&mut out); println!("RAN\tinto_127\t{}", out.checks - before); }
-    { let before = out.checks; gen::into_128::run(&mut out); println!("RAN\tinto_128\t{}", out.checks - before); }
-    { let before = out.checks; gen::into_129::run(&mut out); println!("RAN\tinto_129\t{}", out.checks - before); }
-    { let before = out.checks; gen::into_130::run(&mut out); println!("RAN\tinto_130\t{}", out.checks - before); }
-    { let before = out.checks; gen::into_131::run(&mut out); println!("RAN\tinto_131\t{}", out.checks - before); }
-    { let before = out.checks; gen::into_132::run(&mut out); println!("RAN\tinto_132\t{}", out.checks - before); }
-    { let before = out.checks; gen::into_133::run(&mut out); println!("RAN\tinto_133\t{}", out.checks - before); }
-    { let before = out.checks; gen::into_134::run(&mut out); println!("RAN\tinto_134\t{}", out.checks - before); }
-    { let before = out.checks; gen::into_135::run(&mut out); println!("RAN\tinto_135\t{}", out.checks - before); }
-    { let before = out.checks; gen::into_136::run(&mut out); println!("RAN\tinto_136\t{}", out.checks - before); }
-    { let before = out.checks; gen::into_137::run(&mut out); println!("RAN\tinto_137\t{}", out.checks - before); }
-    { let before = out.checks; gen::into_138::run(&mut out); println!("RAN\tinto_138\t{}", out.checks - before); }
-    { let before = out.checks; gen::into_139::run(&mut out); println!("RAN\tinto_139\t{}", out.checks - before); }
-    { let before = out.checks; gen::into_140::run(&mut out); println!("RAN\tinto_140\t{}", out.checks - before); }
-    { let before = out.checks; gen::into_141::run(&mut out); println!("RAN\tinto_141\t{}", out.checks - before); }
-    { let before = out.checks; gen::into_142::run(&mut out); println!("RAN\tinto_142\t{}", out.checks - before); }
-    { let before = out.checks; gen::into_143::run(&mut out); println!("RAN\tinto_143\t{}", out.checks - before); }
-    { let before = out.checks; gen::into_144::run(&mut out); println!("RAN\tinto_144\t{}", out.checks - before); }
-    { let before = out.checks; gen::into_145::run(&mut out); println!("RAN\tinto_145\t{}", out.checks - before); }
-    { let before = out.checks; gen::into_146::run(&mut out); println!("RAN\tinto_146\t{}", out.checks - before); }
-    { let before = out.checks; gen::into_147::run(&mut out); println!("RAN\tinto_147\t{}", out.checks - before); }
-    { let before = out.checks; gen::into_148::run(&mut out); println!("RAN\tinto_148\t{}", out.checks - before); }
-    { let before = out.checks; gen::into_149::run(&mut out); println!("RAN\tinto_149\t{}", out.checks - before); }
     { let before = out.checks; gen::union_0::run(&mut out); println!("RAN\tunion_0\t{}", out.checks - before); }
     { let before = out.checks; gen::union_1::run(&mut out); println!("RAN\tunion_1\t{}", out.checks - before); }
     { let before = out.checks; gen::union_2::run(&mut out); println!("RAN\tunion_2\t{}", out.checks - before); }
@@ -1392,115 +44,5 @@ fn main() {
     { let before = out.checks; gen::union_37::run(&mut out); println!("RAN\tunion_37\t{}", out.checks - before); }
     { let before = out.checks; gen::union_38::run(&mut out); println!("RAN\tunion_38\t{}", out.checks - before); }
     { let before = out.checks; gen::union_39::run(&mut out); println!("RAN\tunion_39\t{}", out.checks - before); }
-    { let before = out.checks; gen::union_40::run(&mut out); println!("RAN\tunion_40\t{}", out.checks - before); }
-    { let before = out.checks; gen::union_41::run(&mut out); println!("RAN\tunion_41\t{}", out.checks - before); }
-    { let before = out.checks; gen::union_42::run(&mut out); println!("RAN\tunion_42\t{}", out.checks - before); }
-    { let before = out.checks; gen::union_43::run(&mut out); println!("RAN\tunion_43\t{}", out.checks - before); }
-    { let before = out.checks; gen::union_44::run(&mut out); println!("RAN\tunion_44\t{}", out.checks - before); }
-    { let before = out.checks; gen::union_45::run(&mut out); println!("RAN\tunion_45\t{}", out.checks - before); }
-    { let before = out.checks; gen::union_46::run(&mut out); println!("RAN\tunion_46\t{}", out.checks - before); }
-    { let before = out.checks; gen::union_47::run(&mut out); println!("RAN\tunion_47\t{}", out.checks - before); }
-    { let before = out.checks; gen::union_48::run(&mut out); println!("RAN\tunion_48\t{}", out.checks - before); }
-    { let before = out.checks; gen::union_49::run(&mut out); println!("RAN\tunion_49\t{}", out.checks - before); }
-    { let before = out.checks; gen::union_50::run(&mut out); println!("RAN\tunion_50\t{}", out.checks - before); }
-    { let before = out.checks; gen::union_51::run(&mut out); println!("RAN\tunion_51\t{}", out.checks - before); }
-    { let before = out.checks; gen::union_52::run(&mut out); println!("RAN\tunion_52\t{}", out.checks - before); }
-    { let before = out.checks; gen::union_53::run(&mut out); println!("RAN\tunion_53\t{}", out.checks - before); }
-    { let before = out.checks; gen::union_54::run(&mut out); println!("RAN\tunion_54\t{}", out.checks - before); }
-    { let before = out.checks; gen::union_55::run(&mut out); println!("RAN\tunion_55\t{}", out.checks - before); }
-    { let before = out.checks; gen::union_56::run(&mut out); println!("RAN\tunion_56\t{}", out.checks - before); }
-    { let before = out.checks; gen::union_57::run(&mut out); println!("RAN\tunion_57\t{}", out.checks - before); }
-    { let before = out.checks; gen::union_58::run(&mut out); println!("RAN\tunion_58\t{}", out.checks - before); }
-    { let before = out.checks; gen::union_59::run(&mut out); println!("RAN\tunion_59\t{}", out.checks - before); }
-    { let before = out.checks; gen::union_60::run(&mut out); println!("RAN\tunion_60\t{}", out.checks - before); }
-    { let before = out.checks; gen::union_61::run(&mut out); println!("RAN\tunion_61\t{}", out.checks - before); }
-    { let before = out.checks; gen::union_62::run(&mut out); println!("RAN\tunion_62\t{}", out.checks - before); }
-    { let before = out.checks; gen::union_63::run(&mut out); println!("RAN\tunion_63\t{}", out.checks - before); }
-    { let before = out.checks; gen::union_64::run(&mut out); println!("RAN\tunion_64\t{}", out.checks - before); }
-    { let before = out.checks; gen::union_65::run(&mut out); println!("RAN\tunion_65\t{}", out.checks - before); }
-    { let before = out.checks; gen::union_66::run(&mut out); println!("RAN\tunion_66\t{}", out.checks - before); }
-    { let before = out.checks; gen::union_67::run(&mut out); println!("RAN\tunion_67\t{}", out.checks - before); }
-    { let before = out.checks; gen::union_68::run(&mut out); println!("RAN\tunion_68\t{}", out.checks - before); }
-    { let before = out.checks; gen::union_69::run(&mut out); println!("RAN\tunion_69\t{}", out.checks - before); }
-    { let before = out.checks; gen::union_70::run(&mut out); println!("RAN\tunion_70\t{}", out.checks - before); }
-    { let before = out.checks; gen::union_71::run(&mut out); println!("RAN\tunion_71\t{}", out.checks - before); }
-    { let before = out.checks; gen::union_72::run(&mut out); println!("RAN\tunion_72\t{}", out.checks - before); }
-    { let before = out.checks; gen::union_73::run(&mut out); println!("RAN\tunion_73\t{}", out.checks - before); }
-    { let before = out.checks; gen::union_74::run(&mut out); println!("RAN\tunion_74\t{}", out.checks - before); }
-    { let before = out.checks; gen::union_75::run(&mut out); println!("RAN\tunion_75\t{}", out.checks - before); }
-    { let before = out.checks; gen::union_76::run(&mut out); println!("RAN\tunion_76\t{}", out.checks - before); }
-    { let before = out.checks; gen::union_77::run(&mut out); println!("RAN\tunion_77\t{}", out.checks - before); }
-    { let before = out.checks; gen::union_78::run(&mut out); println!("RAN\tunion_78\t{}", out.checks - before); }
-    { let before = out.checks; gen::union_79::run(&mut out); println!("RAN\tunion_79\t{}", out.checks - before); }
-    { let before = out.checks; gen::union_80::run(&mut out); println!("RAN\tunion_80\t{}", out.checks - before); }
-    { let before = out.checks; gen::union_81::run(&mut out); println!("RAN\tunion_81\t{}", out.checks - before); }
-    { let before = out.checks; gen::union_82::run(&mut out); println!("RAN\tunion_82\t{}", out.checks - before); }
-    { let before = out.checks; gen::union_83::run(&mut out); println!("RAN\tunion_83\t{}", out.checks - before); }
-    { let before = out.checks; gen::union_84::run(&mut out); println!("RAN\tunion_84\t{}", out.checks - before); }
-    { let before = out.checks; gen::union_85::run(&mut out); println!("RAN\tunion_85\t{}", out.checks - before); }
-    { let before = out.checks; gen::union_86::run(&mut out); println!("RAN\tunion_86\t{}", out.checks - before); }
-    { let before = out.checks; gen::union_87::run(&mut out); println!("RAN\tunion_87\t{}", out.checks - before); }
-    { let before = out.checks; gen::union_88::run(&mut out); println!("RAN\tunion_88\t{}", out.checks - before); }
-    { let before = out.checks; gen::union_89::run(&mut out); println!("RAN\tunion_89\t{}", out.checks - before); }
-    { let before = out.checks; gen::union_90::run(&mut out); println!("RAN\tunion_90\t{}", out.checks - before); }
-    { let before = out.checks; gen::union_91::run(&mut out); println!("RAN\tunion_91\t{}", out.checks - before); }
-    { let before = out.checks; gen::union_92::run(&mut out); println!("RAN\tunion_92\t{}", out.checks - before); }
-    { let before = out.checks; gen::union_93::run(&mut out); println!("RAN\tunion_93\t{}", out.checks - before); }
-    { let before = out.checks; gen::union_94::run(&mut out); println!("RAN\tunion_94\t{}", out.checks - before); }
-    { let before = out.checks; gen::union_95::run(&mut out); println!("RAN\tunion_95\t{}", out.checks - before); }
-    { let before = out.checks; gen::union_96::run(&mut out); println!("RAN\tunion_96\t{}", out.checks - before); }
-    { let before = out.checks; gen::union_97::run(&mut out); println!("RAN\tunion_97\t{}", out.checks - before); }
-    { let before = out.checks; gen::union_98::run(&mut out); println!("RAN\tunion_98\t{}", out.checks - before); }
-    { let before = out.checks; gen::union_99::run(&mut out); println!("RAN\tunion_99\t{}", out.checks - before); }
-    { let before = out.checks; gen::union_100::run(&mut out); println!("RAN\tunion_100\t{}", out.checks - before); }
-    { let before = out.checks; gen::union_101::run(&mut out); println!("RAN\tunion_101\t{}", out.checks - before); }
-    { let before = out.checks; gen::union_102::run(&mut out); println!("RAN\tunion_102\t{}", out.checks - before); }
-    { let before = out.checks; gen::union_103::run(&mut out); println!("RAN\tunion_103\t{}", out.checks - before); }
-    { let before = out.checks; gen::union_104::run(&mut out); println!("RAN\tunion_104\t{}", out.checks - before); }
-    { let before = out.checks; gen::union_105::run(&mut out); println!("RAN\tunion_105\t{}", out.checks - before); }
-    { let before = out.checks; gen::union_106::run(&mut out); println!("RAN\tunion_106\t{}", out.checks - before); }
-    { let before = out.checks; gen::union_107::run(&mut out); println!("RAN\tunion_107\t{}", out.checks - before); }
-    { let before = out.checks; gen::union_108::run(&mut out); println!("RAN\tunion_108\t{}", out.checks - before); }
-    { let before = out.checks; gen::union_109::run(&mut out); println!("RAN\tunion_109\t{}", out.checks - before); }
-    { let before = out.checks; gen::union_110::run(&mut out); println!("RAN\tunion_110\t{}", out.checks - before); }
-    { let before = out.checks; gen::union_111::run(&mut out); println!("RAN\tunion_111\t{}", out.checks - before); }
-    { let before = out.checks; gen::union_112::run(&mut out); println!("RAN\tunion_112\t{}", out.checks - before); }
-    { let before = out.checks; gen::union_113::run(&mut out); println!("RAN\tunion_113\t{}", out.checks - before); }
-    { let before = out.checks; gen::union_114::run(&mut out); println!("RAN\tunion_114\t{}", out.checks - before); }
-    { let before = out.checks; gen::union_115::run(&mut out); println!("RAN\tunion_115\t{}", out.checks - before); }
-    { let before = out.checks; gen::union_116::run(&mut out); println!("RAN\tunion_116\t{}", out.checks - before); }
-    { let before = out.checks; gen::union_117::run(&mut out); println!("RAN\tunion_117\t{}", out.checks - before); }
-    { let before = out.checks; gen::union_118::run(&mut out); println!("RAN\tunion_118\t{}", out.checks - before); }
-    { let before = out.checks; gen::union_119::run(&mut out); println!("RAN\tunion_119\t{}", out.checks - before); }
-    { let before = out.checks; gen::union_120::run(&mut out); println!("RAN\tunion_120\t{}", out.checks - before); }
-    { let before = out.checks; gen::union_121::run(&mut out); println!("RAN\tunion_121\t{}", out.checks - before); }
-    { let before = out.checks; gen::union_122::run(&mut out); println!("RAN\tunion_122\t{}", out.checks - before); }
-    { let before = out.checks; gen::union_123::run(&mut out); println!("RAN\tunion_123\t{}", out.checks - before); }
-    { let before = out.checks; gen::union_124::run(&mut out); println!("RAN\tunion_124\t{}", out.checks - before); }
-    { let before = out.checks; gen::union_125::run(&mut out); println!("RAN\tunion_125\t{}", out.checks - before); }
-    { let before = out.checks; gen::union_126::run(&mut out); println!("RAN\tunion_126\t{}", out.checks - before); }
-    { let before = out.checks; gen::union_127::run(&mut out); println!("RAN\tunion_127\t{}", out.checks - before); }
-    { let before = out.checks; gen::union_128::run(&mut out); println!("RAN\tunion_128\t{}", out.checks - before); }
-    { let before = out.checks; gen::union_129::run(&mut out); println!("RAN\tunion_129\t{}", out.checks - before); }
-    { let before = out.checks; gen::union_130::run(&mut out); println!("RAN\tunion_130\t{}", out.checks - before); }
-    { let before = out.checks; gen::union_131::run(&mut out); println!("RAN\tunion_131\t{}", out.checks - before); }
-    { let before = out.checks; gen::union_132::run(&mut out); println!("RAN\tunion_132\t{}", out.checks - before); }
-    { let before = out.checks; gen::union_133::run(&mut out); println!("RAN\tunion_133\t{}", out.checks - before); }
-    { let before = out.checks; gen::union_134::run(&mut out); println!("RAN\tunion_134\t{}", out.checks - before); }
-    { let before = out.checks; gen::union_135::run(&mut out); println!("RAN\tunion_135\t{}", out.checks - before); }
-    { let before = out.checks; gen::union_136::run(&mut out); println!("RAN\tunion_136\t{}", out.checks - before); }
-    { let before = out.checks; gen::union_137::run(&mut out); println!("RAN\tunion_137\t{}", out.checks - before); }
-    { let before = out.checks; gen::union_138::run(&mut out); println!("RAN\tunion_138\t{}", out.checks - before); }
-    { let before = out.checks; gen::union_139::run(&mut out); println!("RAN\tunion_139\t{}", out.checks - before); }
-    { let before = out.checks; gen::union_140::run(&mut out); println!("RAN\tunion_140\t{}", out.checks - before); }
-    { let before = out.checks; gen::union_141::run(&mut out); println!("RAN\tunion_141\t{}", out.checks - before); }
-    { let before = out.checks; gen::union_142::run(&mut out); println!("RAN\tunion_142\t{}", out.checks - before); }
-    { let before = out.checks; gen::union_143::run(&mut out); println!("RAN\tunion_143\t{}", out.checks - before); }
-    { let before = out.checks; gen::union_144::run(&mut out); println!("RAN\tunion_144\t{}", out.checks - before); }
-    { let before = out.checks; gen::union_145::run(&mut out); println!("RAN\tunion_145\t{}", out.checks - before); }
-    { let before = out.checks; gen::union_146::run(&mut out); println!("RAN\tunion_146\t{}", out.checks - before); }
-    { let before = out.checks; gen::union_147::run(&mut out); println!("RAN\tunion_147\t{}", out.checks - before); }
-    { let before = out.checks; gen::union_148::run(&mut out); println!("RAN\tunion_148\t{}", out.checks - before); }
-    { let before = out.checks; gen::union_149::run(&mut out); println!("RAN\tunion_149\t{}", out.checks - before); }
     println!("DONE\t{}\t{}", out.checks, out.fails);
 }
